@@ -237,26 +237,33 @@ Record CInv (s : sys) (c : nat) (k : lc) : Prop := {
   ci_poll : k_alive k = true -> poller_ok (s_readd s) k;
   ci_phase : k_alive k = true -> phase s c k;
   ci_dead : k_alive k = false -> holders s c = 0;
+  ci_deadst : k_alive k = false -> k_st k = Disconnected /\ k_added k = false /\ k_pidx k = PNew;
   ci_dtor : k_dtors k = (if k_alive k then 0 else 1) /\ k_closes k = k_dtors k
 }.
 
 Definition raw_pinned (t : task) : bool :=
   match t with TShutdown _ p | TStartRead _ p | TStopRead _ p | TSend _ p => p | _ => true end.
 
+(* functors a user (or the connection itself, once up) can have queued: never for a connection
+   that is still kConnecting *)
+Definition needs_up (t : task) : bool :=
+  match t with TEstablish _ | TDestroy _ | TRemove _ | TOther => false | _ => true end.
+
 Definition placed (s : sys) (l : nat) (t : task) : Prop :=
-  raw_pinned t = true /\
+  raw_pinned t = true /\ (forall c, t = TEstablish c -> l <> 0) /\
   match t with
   | TOther => True
   | TRemove c => l = 0 /\ c < length (s_conns s)
-  | _ => exists k, getc s (task_conn t) = Some k /\ k_loop k = l
+  | _ => exists k, getc s (task_conn t) = Some k /\ k_loop k = l /\ (needs_up t = true -> k_st k <> Connecting)
   end.
 
 (* global *)
 Record GInv (s : sys) : Prop := {
   gi_loops : length (s_loops s) = S (s_nio s);
+  gi_rr : s_nio s = 0 \/ s_rr s < s_nio s;
   gi_placed : forall l v t, getl s l = Some v -> In t (q_all v) -> placed s l t;
   gi_calls : NoDup (map a_thr (s_calls s)) /\
-             forall a, In a (s_calls s) -> exists k, getc s (a_conn a) = Some k /\ k_alive k = true;
+             forall a, In a (s_calls s) -> exists k, getc s (a_conn a) = Some k /\ k_alive k = true /\ k_st k <> Connecting;
   gi_cli : forall c, s_cliconn s = Some c ->
            s_cli s = true /\ exists k, getc s c = Some k /\ k_alive k = true /\ k_mapped k = true /\
                                        k_ccb k = CbClient /\ up_k k
@@ -273,6 +280,7 @@ Proof.
   split; [split|].
   - constructor; cbn.
     + f_equal. apply repeat_length.
+    + destruct nio; [left; reflexivity|right; lia].
     + intros l v t Hl Hin. unfold getl in Hl. cbn [init_sys s_loops] in Hl. apply nth_error_In, repeat_spec in Hl. subst v. contradiction.
     + split; [constructor|intros a []].
     + discriminate.
@@ -296,8 +304,7 @@ Record same_for (s s' : sys) (c : nat) : Prop := {
   sf_nio : s_nio s' = s_nio s;
   sf_readd : s_readd s' = s_readd s;
   sf_srv : s_srv s' = s_srv s;
-  sf_cli : s_cli s' = s_cli s;
-  sf_cliconn : s_cliconn s' = s_cliconn s;
+  sf_cliown : (s_cli s' = true /\ s_cliconn s' = Some c) <-> (s_cli s = true /\ s_cliconn s = Some c);
   sf_E : todoN (isE c) s' = todoN (isE c) s;
   sf_R : todoN (isR c) s' = todoN (isR c) s;
   sf_D : todoN (isD c) s' = todoN (isD c) s;
@@ -308,22 +315,29 @@ Record same_for (s s' : sys) (c : nat) : Prop := {
 }.
 
 Lemma same_for_refl s c : same_for s s c.
-Proof. constructor; reflexivity. Qed.
+Proof. constructor; try reflexivity; tauto. Qed.
 
 Lemma same_for_trans s1 s2 s3 c : same_for s1 s2 c -> same_for s2 s3 c -> same_for s1 s3 c.
 Proof.
-  intros [] []. constructor; try congruence. all: intros l; rewrite sf_first1; apply sf_first0.
+  intros [] []. constructor; try congruence; try tauto. all: intros l; rewrite sf_first1; apply sf_first0.
 Qed.
 
 Lemma same_for_cinv s s' c k : same_for s s' c -> getc s c = Some k -> getc s' c = Some k ->
   CInv s c k -> CInv s' c k.
 Proof.
-  intros [] Hg0 Hg [Hl Hi Hc Hp Hph Hd Hdt].
+  intros [] Hg0 Hg [Hl Hi Hc Hp Hph Hd Hds Hdt].
   constructor; auto.
   - rewrite sf_nio0. exact Hl.
   - rewrite sf_readd0. exact Hp.
   - intros Ha. specialize (Hph Ha). unfold phase, owner_alive in *.
-    rewrite sf_E0, sf_R0, sf_D0, sf_F0, sf_first0, sf_srv0, sf_cli0, sf_cliconn0. exact Hph.
+    rewrite sf_E0, sf_R0, sf_D0, sf_F0, sf_first0, sf_srv0.
+    destruct (k_st k); try exact Hph.
+    + destruct Hph as (A1 & A2 & A3 & A4). repeat (split; [assumption|]).
+      destruct A4 as [(B1 & B2 & B3)|A4]; [|right; exact A4]. left. repeat (split; [assumption|]).
+      destruct (k_ccb k); try exact B3. apply sf_cliown0, B3.
+    + destruct Hph as (A1 & A2 & A3 & A4). repeat (split; [assumption|]).
+      destruct A4 as [(B1 & B2 & B3)|A4]; [|right; exact A4]. left. repeat (split; [assumption|]).
+      destruct (k_ccb k); try exact B3. apply sf_cliown0, B3.
   - intros Ha. specialize (Hd Ha).
     rewrite (holders_eq s' c k Hg), sf_calls0, sf_all0. rewrite (holders_eq s c k Hg0) in Hd. exact Hd.
 Qed.
@@ -404,38 +418,49 @@ Proof. intros H. constructor; try reflexivity. exact H. Qed.
 (* ---- the global part under the primitives --------------------------------------------------------- *)
 Definition conns_ext (s s' : sys) : Prop :=
   length (s_conns s) <= length (s_conns s') /\
-  forall c k, getc s c = Some k -> exists k', getc s' c = Some k' /\ k_loop k' = k_loop k.
+  forall c k, getc s c = Some k -> exists k', getc s' c = Some k' /\ k_loop k' = k_loop k /\
+                                         (k_st k <> Connecting -> k_st k' <> Connecting).
 
 Lemma placed_mono s s' l t : conns_ext s s' -> placed s l t -> placed s' l t.
 Proof.
-  intros [Hlen Hc] [Hp H]. split; [exact Hp|].
-  destruct t; try exact H; try (destruct H as (k & Hk & Hl); destruct (Hc _ _ Hk) as (k' & Hk' & Hl'); exists k'; split; [exact Hk'|congruence]).
+  intros [Hlen Hc] [Hp [He H]]. split; [exact Hp|]. split; [exact He|].
+  destruct t; try exact H; try (destruct H as (k & Hk & Hl & Hs); destruct (Hc _ _ Hk) as (k' & Hk' & Hl' & Hs'); exists k'; split; [exact Hk'|split; [congruence|auto]]).
   destruct H as [H1 H2]. split; [exact H1|lia].
 Qed.
 
 Lemma conns_ext_refl s : conns_ext s s.
 Proof. split; [lia|]. intros c k H. eauto. Qed.
 
-Lemma conns_ext_put s c0 k k0 : getc s c0 = Some k -> k_loop k0 = k_loop k -> conns_ext s (put s c0 k0).
+Lemma conns_ext_trans s1 s2 s3 : conns_ext s1 s2 -> conns_ext s2 s3 -> conns_ext s1 s3.
 Proof.
-  intros Hk Hl. split; [rewrite length_conns_put; lia|].
+  intros [L1 H1] [L2 H2]. split; [lia|]. intros c k Hk. destruct (H1 c k Hk) as (k2 & Hk2 & A & B).
+  destruct (H2 c k2 Hk2) as (k3 & Hk3 & C & D). exists k3. split; [exact Hk3|]. split; [congruence|auto].
+Qed.
+
+Lemma conns_ext_put s c0 k k0 : getc s c0 = Some k -> k_loop k0 = k_loop k ->
+  (k_st k <> Connecting -> k_st k0 <> Connecting) -> conns_ext s (put s c0 k0).
+Proof.
+  intros Hk Hl Hs. split; [rewrite length_conns_put; lia|].
   intros c k1 H1. destruct (Nat.eq_dec c0 c) as [<-|Hn].
-  - exists k0. rewrite getc_put_eq by (eapply getc_lt, Hk). split; [reflexivity|congruence].
+  - exists k0. rewrite getc_put_eq by (eapply getc_lt, Hk). split; [reflexivity|]. assert (k1 = k) by congruence. subst k1. auto.
   - exists k1. rewrite getc_put_neq by exact Hn. auto.
 Qed.
 
 Lemma ginv_put s c0 k k0 : GInv s -> getc s c0 = Some k -> k_loop k0 = k_loop k -> k_alive k0 = k_alive k ->
+  (k_st k <> Connecting -> k_st k0 <> Connecting) ->
   (s_cliconn s = Some c0 -> k_mapped k0 = true /\ k_ccb k0 = CbClient /\ up_k k0) ->
   GInv (put s c0 k0).
 Proof.
-  intros [G1 G2 [G3 G3'] G4] Hk Hl Ha Hcli.
-  pose proof (conns_ext_put s c0 k k0 Hk Hl) as Hext.
+  intros [G1 Gr G2 [G3 G3'] G4] Hk Hl Ha Hnc Hcli.
+  pose proof (conns_ext_put s c0 k k0 Hk Hl Hnc) as Hext.
   constructor.
   - exact G1.
+  - exact Gr.
   - intros l v t Hv Hin. apply (placed_mono s _ l t Hext). apply (G2 l v t Hv Hin).
-  - split; [exact G3|]. intros a Hin. destruct (G3' a Hin) as (k1 & Hk1 & Ha1). cbn [s_calls put set_conns] in *.
+  - split; [exact G3|]. intros a Hin. destruct (G3' a Hin) as (k1 & Hk1 & Ha1 & Hs1). cbn [s_calls put set_conns] in *.
     destruct (Nat.eq_dec c0 (a_conn a)) as [E|Hn].
-    + exists k0. rewrite <- E, getc_put_eq by (eapply getc_lt, Hk). split; [reflexivity|]. rewrite Ha. rewrite <- E in Hk1. congruence.
+    + exists k0. rewrite <- E, getc_put_eq by (eapply getc_lt, Hk). split; [reflexivity|]. rewrite Ha. rewrite <- E in Hk1.
+      assert (k1 = k) by congruence. subst k1. auto.
     + exists k1. rewrite getc_put_neq by exact Hn. auto.
   - intros c Hc. cbn [s_cliconn put set_conns] in Hc. destruct (G4 c Hc) as (Hs & k1 & Hk1 & H1 & H2 & H3 & H4).
     split; [exact Hs|]. destruct (Nat.eq_dec c0 c) as [E|Hn].
@@ -452,8 +477,9 @@ Qed.
 Lemma ginv_set_loop s l v v' : GInv s -> getl s l = Some v ->
   (forall t, In t (q_all v') -> In t (q_all v) \/ placed s l t) -> GInv (set_loop s l v').
 Proof.
-  intros [G1 G2 G3 G4] Hv Hsub. constructor.
+  intros [G1 Gr G2 G3 G4] Hv Hsub. constructor.
   - unfold set_loop. cbn. rewrite length_upd. exact G1.
+  - exact Gr.
   - intros l' v1 t Hv1 Hin.
     assert (Hpl : placed s l' t).
     { destruct (Nat.eq_dec l l') as [<-|Hn].
@@ -561,19 +587,20 @@ Proof.
   assert (Hcalls : count_calls c (s_calls s) = 0) by lia.
   split.
   - (* global *)
-    destruct G as [G1 G2 [G3 G3'] G4].
-    pose proof (conns_ext_put s c k (kill k) Hg eq_refl) as Hext.
+    destruct G as [G1 Gr G2 [G3 G3'] G4].
+    pose proof (conns_ext_put s c k (kill k) Hg eq_refl (fun H => H)) as Hext.
     constructor.
     + exact G1.
+    + exact Gr.
     + intros l v t Hv Hin. apply (placed_mono s _ l t Hext), (G2 l v t Hv Hin).
-    + split; [exact G3|]. intros a Hin. destruct (G3' a Hin) as (k1 & Hk1 & Ha1).
+    + split; [exact G3|]. intros a Hin. destruct (G3' a Hin) as (k1 & Hk1 & Ha1 & Hs1).
       exists k1. rewrite getc_put_neq; [auto|]. intros E. apply (count_calls_zero_notin c _ Hcalls a Hin). auto.
     + intros c1 Hc1. destruct (G4 c1 Hc1) as (Hs & k1 & Hk1 & H1 & H2 & H3 & H4). split; [exact Hs|].
       exists k1. rewrite getc_put_neq; [auto|]. intros E. subst c1. congruence.
   - intros c' k' Hg'. destruct (Nat.eq_dec c c') as [<-|Hn].
     + rewrite getc_put_eq in Hg' by (eapply getc_lt, Hg). injection Hg' as <-.
-      destruct (HC c k Hg) as [Hl Hi Hc Hp Hph Hd Hdt].
-      constructor; cbn [kill k_alive k_loop k_ccb k_dtors k_closes]; try discriminate; auto.
+      destruct (HC c k Hg) as [Hl Hi Hc Hp Hph Hd Hds Hdt].
+      constructor; cbn [kill k_alive k_loop k_ccb k_dtors k_closes k_st k_added k_pidx]; try discriminate; auto.
       * intros _. rewrite (holders_put_own s c k (kill k) Hg eq_refl eq_refl). exact Hh.
       * destruct Hdt as [Hd1 Hd2]. rewrite Ha in Hd1. rewrite Hd2, Hd1. auto.
     + rewrite getc_put_neq in Hg' by exact Hn.
@@ -605,9 +632,8 @@ Proof.
         -- split; [exact R1|]. split; [exact R2|]. split; [cbn [all_clean forallb]; rewrite Hcl; exact R3|].
            split; [|cbn [put set_conns s_loops s_calls s_srv s_cli s_cliconn s_nio s_readd] in *; repeat (split; [assumption|]);
                     constructor; [exists c; rewrite Hcl; reflexivity|exact R12]].
-           destruct R4 as [L1 L2]. pose proof (conns_ext_put s c k (kill k) Hg eq_refl) as [L3 L4]. split; [lia|].
-           intros c1 k1 Hk1. destruct (L4 c1 k1 Hk1) as (k2 & Hk2 & Hl2). destruct (L2 c1 k2 Hk2) as (k3 & Hk3 & Hl3).
-           exists k3. split; [exact Hk3|congruence].
+           apply (conns_ext_trans s (put s c (kill k)) s1); [|exact R4].
+           apply (conns_ext_put s c k (kill k) Hg eq_refl (fun H => H)).
       * apply (IH s thr (S c) s' d H HI); [|lia].
         intros c' k' Hlt Hg' Ha'. destruct (Nat.eq_dec c c') as [<-|Hn].
         -- rewrite Hg in Hg'. injection Hg' as <-. rewrite Ha' in E. cbn in E. apply Nat.eqb_neq in E. lia.
@@ -672,7 +698,7 @@ Lemma phase_local s s' c k k' :
   todoN (isE c) s' = todoN (isE c) s -> todoN (isR c) s' = todoN (isR c) s -> todoN (isD c) s' = todoN (isD c) s ->
   todoN (isF c) s <= todoN (isF c) s' -> (k_st k = Connecting -> todoN (isF c) s' = todoN (isF c) s) ->
   (forall x, first_life c (loop_todo s (k_loop k)) = Some x -> first_life c (loop_todo s' (k_loop k)) = Some x) ->
-  (1 <= k_urefs k -> 1 <= k_urefs k' \/ 1 <= todoN (isF c) s') ->
+  (k_mapped k = false -> k_ccb k = CbDetail -> up_k k -> 1 <= k_urefs k -> 1 <= k_urefs k' \/ 1 <= todoN (isF c) s') ->
   phase s' c k'.
 Proof.
   intros Hp Hst Ha Hm Hcb Hl Hsrv Hcli Hcc HE HR HD HF HFc Hfl Hu.
@@ -693,7 +719,7 @@ Proof.
       destruct H4 as [H4|[(A1 & A2 & A3 & A4 & A5)|(A1 & A2 & A3 & A4)]].
       - left. exact H4.
       - right. left. auto 10.
-      - right. right. repeat (split; [assumption|]). destruct A4 as [A4|A4]; [apply Hu, A4|right; lia]. }
+      - right. right. repeat (split; [assumption|]). destruct A4 as [A4|A4]; [apply Hu; auto; left; exact Ek|right; lia]. }
     destruct Hu' as [E|E]; rewrite E; exact Hgoal.
   - assert (Hu' : up_k k') by (apply Hup; right; exact Ek).
     destruct Hp as (H1 & H2 & H3 & H4).
@@ -705,7 +731,7 @@ Proof.
       destruct H4 as [H4|[(A1 & A2 & A3 & A4 & A5)|(A1 & A2 & A3 & A4)]].
       - left. exact H4.
       - right. left. auto 10.
-      - right. right. repeat (split; [assumption|]). destruct A4 as [A4|A4]; [apply Hu, A4|right; lia]. }
+      - right. right. repeat (split; [assumption|]). destruct A4 as [A4|A4]; [apply Hu; auto; right; exact Ek|right; lia]. }
     destruct Hu' as [E|E]; rewrite E; exact Hgoal.
   - destruct Hst as [E|[[E|E] _]]; try congruence. rewrite E. exact Hp.
 Qed.
@@ -718,7 +744,7 @@ Lemma cinv_alive s s' c k k' :
   counters_ok k' -> poller_ok (s_readd s) k' -> phase s' c k' ->
   k_dtors k' = k_dtors k -> k_closes k' = k_closes k -> CInv s' c k'.
 Proof.
-  intros [Hl Hi Hc Hp Hph Hd Hdt] Ha Ha' Hn Hr Hlo Hcb Hidle Hcnt Hpoll Hphase Hd1 Hd2.
+  intros [Hl Hi Hc Hp Hph Hd Hds Hdt] Ha Ha' Hn Hr Hlo Hcb Hidle Hcnt Hpoll Hphase Hd1 Hd2.
   constructor.
   - rewrite Hn, Hlo. destruct Hl as [L1 L2]. split; [exact L1|]. intros Hx.
     destruct Hcb as [E|[_ E]]; [apply L2; congruence|exact E].
@@ -726,6 +752,7 @@ Proof.
   - intros _. exact Hcnt.
   - intros _. rewrite Hr. exact Hpoll.
   - intros _. exact Hphase.
+  - intros Hx. congruence.
   - intros Hx. congruence.
   - rewrite Ha', Hd1, Hd2. rewrite Ha in Hdt. exact Hdt.
 Qed.
@@ -762,7 +789,7 @@ Proof.
   apply andb_prop in E as [Ha _]. destruct HI as [[G HC] HH] eqn:EI.
   set (k' := set_own k (k_ccb k) (k_mapped k) (S (k_urefs k)) (k_delayed k)).
   apply (put_only s c k k' (conj (conj G HC) HH) Hg Ha); [| |exact Ha|cbn; lia].
-  - apply (ginv_put s c k k' G Hg eq_refl eq_refl). intros Hc.
+  - apply (ginv_put s c k k' G Hg eq_refl eq_refl); [auto|]. intros Hc.
     destruct (gi_cli s G c Hc) as (_ & k1 & Hk1 & _ & H2 & H3 & H4). rewrite Hg in Hk1. injection Hk1 as <-. auto.
   - pose proof (HC c k Hg) as HCk.
     apply (cinv_alive s (put s c k') c k k' HCk Ha Ha eq_refl eq_refl eq_refl (or_introl eq_refl));
@@ -774,7 +801,7 @@ Qed.
 Lemma put_local s c k k' : Inv0 s -> getc s c = Some k -> k_alive k = true -> k_alive k' = true ->
   k_loop k' = k_loop k -> k_ccb k' = k_ccb k -> k_mapped k' = k_mapped k -> k_added k' = k_added k ->
   (k_st k' = k_st k \/ (up_k k /\ up_k k')) ->
-  (1 <= k_urefs k -> 1 <= k_urefs k' \/ 1 <= todoN (isF c) s) ->
+  (k_mapped k = false -> k_ccb k = CbDetail -> up_k k -> 1 <= k_urefs k -> 1 <= k_urefs k' \/ 1 <= todoN (isF c) s) ->
   (~ up_k k' -> k_wr k' = false /\ k_rd k' = false) ->
   counters_ok k' -> poller_ok (s_readd s) k' ->
   k_dtors k' = k_dtors k -> k_closes k' = k_closes k ->
@@ -784,7 +811,9 @@ Proof.
   assert (Hlt : c < length (s_conns s)) by (eapply getc_lt, Hg).
   pose proof (HC c k Hg) as HCk.
   apply (inv0_frame s _ c (conj G HC)).
-  - apply (ginv_put s c k k' G Hg Hl); [congruence|]. intros Hc.
+  - apply (ginv_put s c k k' G Hg Hl); [congruence| |].
+    { intros Hx. destruct Hst as [E|[_ [E|E]]]; congruence. }
+    intros Hc.
     destruct (gi_cli s G c Hc) as (_ & k1 & Hk1 & _ & H2 & H3 & H4). rewrite Hg in Hk1. injection Hk1 as <-.
     split; [congruence|]. split; [congruence|]. destruct Hst as [E|[_ E]]; [unfold up_k in *; rewrite E; exact H4|exact E].
   - intros c1 Hn. split; [apply getc_put_neq; auto|apply same_for_put].
@@ -872,7 +901,7 @@ Proof.
   - destruct (plain_not_life c t Hpl) as (HE & HR & HD & HF & Hlife).
     destruct (enq_fields s l t) as (F1 & F2 & F3 & F4 & F5 & F6).
     destruct (getl s l) as [v|] eqn:Ev; [|rewrite (enq_none s l t Ev); exact HCk].
-    destruct HCk as [Hl Hi Hc Hp Hph Hd Hdt].
+    destruct HCk as [Hl Hi Hc Hp Hph Hd Hds Hdt].
     constructor; auto.
     + rewrite F1. exact Hl.
     + rewrite F2. exact Hp.
@@ -898,4 +927,1409 @@ Proof.
   rewrite (holders_eq s c k Hg), (holders_eq (enq s l t) c k) by (rewrite getc_enq; exact Hg).
   destruct (enq_fields s l t) as (_ & _ & _ & _ & _ & F6). rewrite F6.
   destruct (getl s l) as [v|] eqn:Ev; [rewrite (allN_enq _ s l t v Ev); lia|rewrite (enq_none s l t Ev); lia].
+Qed.
+
+Lemma about_eq c t : about c t = true -> t <> TOther /\ task_conn t = c.
+Proof. destruct t; cbn; intros H; try discriminate; split; try discriminate; apply Nat.eqb_eq, H. Qed.
+
+(* queueing forceCloseInLoop for a connection that is up *)
+Lemma enq_force s c k : Inv0 s -> getc s c = Some k -> k_alive k = true -> k_st k <> Connecting ->
+  Inv0 (enq s (k_loop k) (TForceClose c)).
+Proof.
+  intros [G HC] Hg Ha Hup. set (l := k_loop k). set (t := TForceClose c).
+  pose proof (HC c k Hg) as HCk.
+  destruct (getl_valid s l G (proj1 (ci_loop s c k HCk))) as [v Ev].
+  destruct (enq_fields s l t) as (F1 & F2 & F3 & F4 & F5 & F6).
+  split.
+  - apply ginv_enq; [exact G|]. split; [reflexivity|]. split; [intros ? Hx; discriminate Hx|]. exists k. auto.
+  - intros c1 k1 Hg1. rewrite getc_enq in Hg1. destruct (about c1 t) eqn:Eab.
+    + destruct (about_eq c1 t Eab) as [_ Ec]. cbn in Ec. subst c1. rewrite Hg in Hg1. injection Hg1 as <-.
+      apply (cinv_alive s (enq s l t) c k k HCk Ha Ha F1 F2 eq_refl (or_introl eq_refl));
+        [apply (ci_idle s c k HCk Ha)|apply (ci_cnt s c k HCk Ha)|apply (ci_poll s c k HCk Ha)| |reflexivity|reflexivity].
+      apply (phase_local s (enq s l t) c k k (ci_phase s c k HCk Ha)); auto;
+        try (rewrite (todoN_enq _ s l t v Ev); unfold t; cbn [isE isR isD isF]; rewrite ?Nat.eqb_refl; lia).
+      * intros Hx. congruence.
+      * intros x Hx. fold l. rewrite (loop_todo_enq_eq s l t v Ev). apply first_life_app_some, Hx.
+    + apply (same_for_cinv s (enq s l t) c1 k1 (same_for_enq s l t c1 Eab) Hg1); [rewrite getc_enq; exact Hg1|apply HC, Hg1].
+Qed.
+
+Lemma force_close_inv s c : Inv0 s -> Held s -> Inv0 (force_close s c) /\ Held (force_close s c).
+Proof.
+  intros HI HH. unfold force_close. destruct (getc s c) as [k|] eqn:Hg; [|split; assumption].
+  destruct (k_closable k) eqn:Ecl; [|split; assumption].
+  apply closable_up_k in Ecl.
+  destruct (k_alive k) eqn:Ha.
+  - set (k' := set_life k Disconnecting (k_ups k) (k_downs k)).
+    pose proof (proj2 HI c k Hg) as HCk.
+    assert (HI1 : Inv0 (put s c k')).
+    { apply (put_local s c k k' HI Hg Ha); cbn; auto.
+      - right. split; [exact Ecl|right; reflexivity].
+      - intros Hx. exfalso. apply Hx. right. reflexivity.
+      - apply (counters_disc k (ci_cnt s c k HCk Ha) Ecl).
+      - apply (ci_poll s c k HCk Ha). }
+    assert (Hg1 : getc (put s c k') c = Some k') by (apply getc_put_eq; eapply getc_lt, Hg).
+    split.
+    + apply (enq_force (put s c k') c k' HI1 Hg1 Ha). cbn. discriminate.
+    + apply held_enq, (held_put s c k k' HH Hg Ha). cbn. lia.
+  - (* a dead connection is never closable *)
+    exfalso. destruct (ci_deadst s c k (proj2 HI c k Hg) Ha) as (E & _). destruct Ecl as [E1|E1]; congruence.
+Qed.
+
+Lemma step_LForceClose s c : Inv s -> step_ok s (LForceClose c).
+Proof.
+  intros [HI HH]. on_conn_start HI Hg Ha Hnc. cbn [ret].
+  destruct (force_close_inv s c HI HH). split; assumption.
+Qed.
+
+Lemma step_LForceCloseDelay s c : Inv s -> step_ok s (LForceCloseDelay c).
+Proof.
+  intros [HI HH]. on_conn_start HI Hg Ha Hnc. cbn [ret].
+  destruct (k_closable k) eqn:Ecl; [|split; assumption]. apply closable_up_k in Ecl.
+  pose proof (proj2 HI c k Hg) as HCk.
+  split.
+  - apply (put_local s c k _ HI Hg Ha); cbn; auto.
+    + right. split; [exact Ecl|right; reflexivity].
+    + intros Hx. exfalso. apply Hx. right. reflexivity.
+    + apply (counters_disc k (ci_cnt s c k HCk Ha) Ecl).
+    + apply (ci_poll s c k HCk Ha).
+  - apply (held_put s c k _ HH Hg Ha). cbn. lia.
+Qed.
+
+Lemma read_toggle_inv s c k rd fl : Inv0 s -> Held s -> getc s c = Some k -> k_alive k = true -> up_k k -> k_added k = true ->
+  Inv0 (put s c (set_rflag (chan_update (s_readd s) k (k_wr k) rd) fl)) /\
+  Held (put s c (set_rflag (chan_update (s_readd s) k (k_wr k) rd) fl)).
+Proof.
+  intros HI HH Hg Ha Hup Hadd.
+  pose proof (proj2 HI c k Hg) as HCk.
+  pose proof (chan_update_fields (s_readd s) k (k_wr k) rd) as F. cbv zeta in F.
+  destruct F as (F1 & F2 & F3 & F4 & F5 & F6 & F7 & F8 & F9 & F10 & F11 & F12 & F13 & F14 & F15 & F16 & F17).
+  split.
+  - apply (put_local s c k _ HI Hg Ha); cbn [set_rflag k_alive k_loop k_ccb k_mapped k_added k_st k_urefs k_wr k_rd k_dtors k_closes]; try congruence.
+    + left. exact F1.
+    + intros Hx. left. lia.
+    + intros Hx. exfalso. apply Hx. unfold up_k in *. cbn. rewrite F1. exact Hup.
+    + pose proof (ci_cnt s c k HCk Ha) as Hc. unfold counters_ok in *. cbn. rewrite F1, F13, F14. exact Hc.
+    + apply (chan_update_poller (s_readd s) k (k_wr k) rd).
+  - apply (held_put s c k _ HH Hg Ha). cbn. rewrite F9, F10. lia.
+Qed.
+
+Lemma start_read_inv s c : Inv0 s -> Held s ->
+  (forall k, getc s c = Some k -> k_alive k = true /\ k_st k <> Connecting /\ k_added k = true) ->
+  Inv0 (start_read s c) /\ Held (start_read s c).
+Proof.
+  intros HI HH Hpre. unfold start_read. destruct (getc s c) as [k|] eqn:Hg; [|split; assumption].
+  destruct (negb (cstate_eqb (k_st k) Disconnected) && (negb (k_rflag k) || negb (k_rd k))) eqn:E; [|split; assumption].
+  destruct (Hpre k eq_refl) as (Ha & Hnc & Hadd). apply andb_prop in E as [E _]. apply negb_true_iff, cs_eqb_false in E.
+  apply (read_toggle_inv s c k true true HI HH Hg Ha); [|exact Hadd]. unfold up_k. destruct (k_st k); intuition congruence.
+Qed.
+
+Lemma stop_read_inv s c : Inv0 s -> Held s ->
+  (forall k, getc s c = Some k -> k_alive k = true /\ k_st k <> Connecting /\ k_added k = true) ->
+  Inv0 (stop_read s c) /\ Held (stop_read s c).
+Proof.
+  intros HI HH Hpre. unfold stop_read. destruct (getc s c) as [k|] eqn:Hg; [|split; assumption].
+  destruct (negb (cstate_eqb (k_st k) Disconnected) && (k_rflag k || k_rd k)) eqn:E; [|split; assumption].
+  destruct (Hpre k eq_refl) as (Ha & Hnc & Hadd). apply andb_prop in E as [E _]. apply negb_true_iff, cs_eqb_false in E.
+  apply (read_toggle_inv s c k false false HI HH Hg Ha); [|exact Hadd]. unfold up_k. destruct (k_st k); intuition congruence.
+Qed.
+
+Lemma step_LStartRead s c : Inv s -> step_ok s (LStartRead c).
+Proof.
+  intros [HI HH]. on_conn_start HI Hg Ha Hnc. destruct (k_added k) eqn:Hadd; [|exact I]. cbn [ret].
+  destruct (start_read_inv s c HI HH); [|split; assumption].
+  intros k1 Hk1. rewrite Hg in Hk1. injection Hk1 as <-. apply cs_eqb_false in Hnc. auto.
+Qed.
+
+Lemma step_LStopRead s c : Inv s -> step_ok s (LStopRead c).
+Proof.
+  intros [HI HH]. on_conn_start HI Hg Ha Hnc. destruct (k_added k) eqn:Hadd; [|exact I]. cbn [ret].
+  destruct (stop_read_inv s c HI HH); [|split; assumption].
+  intros k1 Hk1. rewrite Hg in Hk1. injection Hk1 as <-. apply cs_eqb_false in Hnc. auto.
+Qed.
+
+Lemma send_in_loop_inv s c full wc : Inv0 s -> Held s ->
+  (forall k, getc s c = Some k -> k_alive k = true /\ k_st k <> Connecting) ->
+  Inv0 (send_in_loop s c full wc) /\ Held (send_in_loop s c full wc).
+Proof.
+  intros HI HH Hpre. unfold send_in_loop. destruct (getc s c) as [k|] eqn:Hg; [|split; assumption].
+  destruct (cstate_eqb (k_st k) Disconnected) eqn:Ed; [split; assumption|]. apply cs_eqb_false in Ed.
+  destruct (k_wr k) eqn:Ew; [split; assumption|]. destruct (k_fin k); [split; assumption|].
+  destruct (Hpre k eq_refl) as (Ha & Hnc).
+  assert (Hup : up_k k) by (unfold up_k; destruct (k_st k); intuition congruence).
+  pose proof (proj2 HI c k Hg) as HCk.
+  destruct full.
+  - destruct wc; [|split; assumption]. split; [|apply held_enq, HH].
+    apply (enq_plain s (k_loop k) (TUserCb c) HI eq_refl).
+    + split; [reflexivity|]. split; [intros ? Hx; discriminate Hx|]. exists k. auto.
+    + intros _. exists k. auto.
+  - pose proof (ci_phase s c k HCk Ha) as Hph.
+    assert (Hadd : k_added k = true).
+    { unfold phase in Hph. destruct Hup as [E|E]; rewrite E in Hph; apply Hph. }
+    pose proof (chan_update_fields (s_readd s) k true (k_rd k)) as F. cbv zeta in F.
+    destruct F as (F1 & F2 & F3 & F4 & F5 & F6 & F7 & F8 & F9 & F10 & F11 & F12 & F13 & F14 & F15 & F16 & F17).
+    split.
+    + apply (put_local s c k _ HI Hg Ha); try congruence.
+      * left. exact F1.
+      * intros Hx. left. lia.
+      * intros Hx. exfalso. apply Hx. unfold up_k in *. rewrite F1. exact Hup.
+      * pose proof (ci_cnt s c k HCk Ha) as Hc. unfold counters_ok in *. rewrite F1, F13, F14. exact Hc.
+      * apply chan_update_poller.
+    + apply (held_put s c k _ HH Hg Ha). rewrite F9, F10. lia.
+Qed.
+
+Lemma step_LSend s c full wc : Inv s -> step_ok s (LSend c full wc).
+Proof.
+  intros [HI HH]. on_conn_start HI Hg Ha Hnc. cbn [ret].
+  destruct (cstate_eqb (k_st k) Connected); [|split; assumption].
+  destruct (send_in_loop_inv s c full wc HI HH); [|split; assumption].
+  intros k1 Hk1. rewrite Hg in Hk1. injection Hk1 as <-. apply cs_eqb_false in Hnc. auto.
+Qed.
+
+(* fields the invariant does not look at: delayed, fin, rflag *)
+Definition same_core (k k' : lc) : Prop :=
+  k_st k' = k_st k /\ k_wr k' = k_wr k /\ k_rd k' = k_rd k /\ k_added k' = k_added k /\ k_pidx k' = k_pidx k /\
+  k_loop k' = k_loop k /\ k_alive k' = k_alive k /\ k_ccb k' = k_ccb k /\ k_mapped k' = k_mapped k /\
+  k_urefs k' = k_urefs k /\ k_ups k' = k_ups k /\ k_downs k' = k_downs k /\ k_dtors k' = k_dtors k /\ k_closes k' = k_closes k.
+
+Lemma put_core s c k k' : Inv0 s -> Held s -> getc s c = Some k -> same_core k k' ->
+  Inv0 (put s c k') /\ Held (put s c k').
+Proof.
+  intros [G HC] HH Hg (E1 & E2 & E3 & E4 & E5 & E6 & E7 & E8 & E9 & E10 & E11 & E12 & E13 & E14).
+  assert (Hlt : c < length (s_conns s)) by (eapply getc_lt, Hg).
+  pose proof (HC c k Hg) as HCk.
+  split.
+  - apply (inv0_frame s _ c (conj G HC)).
+    + apply (ginv_put s c k k' G Hg E6 E7); [congruence|]. intros Hc.
+      destruct (gi_cli s G c Hc) as (_ & k1 & Hk1 & _ & H2 & H3 & H4). rewrite Hg in Hk1. injection Hk1 as <-.
+      unfold up_k in *. rewrite E1, E9, E8. auto.
+    + intros c1 Hn. split; [apply getc_put_neq; auto|apply same_for_put].
+    + intros k1 Hk1. rewrite getc_put_eq in Hk1 by exact Hlt. injection Hk1 as <-.
+      destruct HCk as [Hl Hi Hc Hp Hph Hd Hds Hdt].
+      constructor; unfold up_k, counters_ok, poller_ok, k_none, phase, owner_alive in *;
+        rewrite ?E1, ?E2, ?E3, ?E4, ?E5, ?E6, ?E7, ?E8, ?E9, ?E10, ?E11, ?E12, ?E13, ?E14; auto.
+      intros Hx. rewrite (holders_eq (put s c k') c k' (getc_put_eq s c k' Hlt)), E9, E10.
+      specialize (Hd Hx). rewrite (holders_eq s c k Hg) in Hd. exact Hd.
+  - apply (held_mono s _ HH). intros c1 k1 Hg1 Ha1. destruct (Nat.eq_dec c c1) as [<-|Hn].
+    + rewrite getc_put_eq in Hg1 by exact Hlt. injection Hg1 as <-. exists k. split; [exact Hg|]. split; [congruence|].
+      rewrite (holders_eq s c k Hg), (holders_eq (put s c k') c k' (getc_put_eq s c k' Hlt)), E9, E10.
+      change (s_calls (put s c k')) with (s_calls s). change (allN (holds c) (put s c k')) with (allN (holds c) s). lia.
+    + rewrite getc_put_neq in Hg1 by exact Hn. exists k1. split; [exact Hg1|]. split; [exact Ha1|].
+      rewrite (holders_eq s c1 k1 Hg1). rewrite (holders_eq (put s c k') c1 k1) by (rewrite getc_put_neq by exact Hn; exact Hg1).
+      change (s_calls (put s c k')) with (s_calls s). change (allN (holds c1) (put s c k')) with (allN (holds c1) s). lia.
+Qed.
+
+Lemma finish_ok s thr o : Inv0 s -> match finish (Ok (s, o)) thr with Ok (s', _) => Inv s' | Rejected => True | Fault => False end.
+Proof. intros HI. destruct (finish_inv s thr o HI) as (s' & d & -> & HI' & _). exact HI'. Qed.
+
+Lemma step_DelayFire s c : Inv s -> step_ok s (DelayFire c).
+Proof.
+  intros [HI HH]. unfold step_ok, step. destruct (getc s c) as [k|] eqn:Hg; [|exact I].
+  destruct (k_delayed k) as [|n] eqn:Ed; [exact I|]. destruct (negb (loop_idle s (k_loop k))); [exact I|].
+  set (k' := set_own k (k_ccb k) (k_mapped k) (k_urefs k) n).
+  destruct (put_core s c k k' HI HH Hg) as [HI1 HH1]; [unfold same_core; cbn; auto 20|].
+  cbn [ret]. apply finish_ok.
+  destruct (k_alive k); [apply (force_close_inv _ c HI1 HH1)|exact HI1].
+Qed.
+
+Lemma step_UDrop s c : Inv s -> step_ok s (UDrop c).
+Proof.
+  intros [HI HH]. unfold step_ok, step. destruct (getc s c) as [k|] eqn:Hg; [|exact I].
+  destruct (k_urefs k) as [|n] eqn:Eu; [exact I|].
+  destruct (true && (n =? 0) && negb (k_mapped k) && k_closable k && match k_ccb k with CbDetail => true | _ => false end) eqn:Eg; [exact I|].
+  cbn [ret]. apply finish_ok.
+  pose proof (proj2 HI c k Hg) as HCk.
+  destruct (k_alive k) eqn:Ha.
+  - apply (put_local s c k _ HI Hg Ha); cbn; auto.
+    + intros Hm Hcb Hup _. rewrite Hm, Hcb, (proj2 (closable_up_k k) Hup) in Eg. cbn in Eg.
+      destruct n; [discriminate|]. left. lia.
+    + apply (ci_idle s c k HCk Ha).
+    + apply (ci_cnt s c k HCk Ha).
+    + apply (ci_poll s c k HCk Ha).
+  - pose proof (ci_dead s c k HCk Ha) as Hd. rewrite (holders_eq s c k Hg) in Hd. lia.
+Qed.
+
+(* ---- foreign calls in progress --------------------------------------------------------------------- *)
+Lemma nodup_snoc {A} (l : list A) x : NoDup l -> ~ In x l -> NoDup (l ++ [x]).
+Proof.
+  induction 1 as [|y l Hy Hd IH]; intros Hx; cbn; [constructor; [tauto|constructor]|].
+  constructor.
+  - rewrite in_app_iff. cbn. intros [H|[H|[]]]; [auto|]. apply Hx. left. auto.
+  - apply IH. intros H. apply Hx. right. exact H.
+Qed.
+
+Lemma find_call_none u l : find_call u l = None -> ~ In u (map a_thr l).
+Proof.
+  induction l as [|a l IH]; cbn; [tauto|]. destruct (a_thr a =? u) eqn:E; [discriminate|].
+  apply Nat.eqb_neq in E. intros H [Hx|Hx]; [congruence|apply (IH H Hx)].
+Qed.
+
+Lemma find_call_some u l a : find_call u l = Some a -> In a l /\ a_thr a = u.
+Proof.
+  induction l as [|x l IH]; cbn; [discriminate|]. destruct (a_thr x =? u) eqn:E.
+  - intros H. injection H as <-. apply Nat.eqb_eq in E. auto.
+  - intros H. destruct (IH H). auto.
+Qed.
+
+Lemma drop_call_in u l a : In a (drop_call u l) -> In a l /\ a_thr a <> u.
+Proof.
+  unfold drop_call. rewrite filter_In. intros [H1 H2]. apply negb_true_iff, Nat.eqb_neq in H2. auto.
+Qed.
+
+Lemma drop_call_nodup u l : NoDup (map a_thr l) -> NoDup (map a_thr (drop_call u l)) /\ ~ In u (map a_thr (drop_call u l)).
+Proof.
+  induction l as [|a l IH]; cbn; [split; [constructor|tauto]|].
+  intros H. inversion H as [|x xs Hn Hd]; subst. destruct (IH Hd) as [I1 I2].
+  destruct (a_thr a =? u) eqn:E; cbn [negb]; [split; assumption|].
+  apply Nat.eqb_neq in E. cbn [map]. split.
+  - constructor; [|exact I1]. intros Hin. apply Hn. apply in_map_iff in Hin as (b & Hb & Hin).
+    apply drop_call_in in Hin as [Hin _]. apply in_map_iff. eauto.
+  - intros [Hx|Hx]; [congruence|exact (I2 Hx)].
+Qed.
+
+Lemma count_calls_app c l1 l2 : count_calls c (l1 ++ l2) = count_calls c l1 + count_calls c l2.
+Proof. unfold count_calls. rewrite filter_app, app_length. reflexivity. Qed.
+
+Lemma count_calls_drop_le c u l : count_calls c (drop_call u l) <= count_calls c l.
+Proof.
+  unfold count_calls, drop_call. induction l as [|a l IH]; cbn; [lia|].
+  destruct (negb (a_thr a =? u)); cbn; destruct (a_conn a =? c); cbn; lia.
+Qed.
+
+Lemma count_calls_drop c u l a : NoDup (map a_thr l) -> find_call u l = Some a ->
+  count_calls c (drop_call u l) + (if a_conn a =? c then 1 else 0) = count_calls c l.
+Proof.
+  unfold count_calls, drop_call. induction l as [|x l IH]; cbn [find_call]; [discriminate|].
+  intros Hnd H. inversion Hnd as [|y ys Hn Hd]; subst. cbn [filter].
+  destruct (a_thr x =? u) eqn:E.
+  - injection H as <-. cbn [negb]. apply Nat.eqb_eq in E.
+    assert (Hsame : filter (fun a => negb (a_thr a =? u)) l = l).
+    { clear IH Hd Hnd. revert Hn. induction l as [|z l IHl]; intros Hn; [reflexivity|]. cbn [filter].
+      destruct (a_thr z =? u) eqn:Ez.
+      - exfalso. apply Hn. apply Nat.eqb_eq in Ez. cbn [map In]. left. congruence.
+      - cbn [negb]. assert (Hn' : ~ In (a_thr x) (map a_thr l)) by (intro Hx; apply Hn; cbn [map In]; right; exact Hx).
+        rewrite (IHl Hn'). reflexivity. }
+    rewrite Hsame. destruct (a_conn x =? c); cbn; lia.
+  - cbn [negb filter]. specialize (IH Hd H). destruct (a_conn x =? c); cbn [length]; lia.
+Qed.
+
+Lemma set_calls_inv0 s cl : Inv0 s ->
+  NoDup (map a_thr cl) -> (forall a, In a cl -> exists k, getc s (a_conn a) = Some k /\ k_alive k = true /\ k_st k <> Connecting) ->
+  Inv0 (set_calls s cl).
+Proof.
+  intros [G HC] Hnd Hal. split.
+  - destruct G as [G1 Gr G2 G3 G4]. constructor; auto.
+  - intros c k Hg. change (getc (set_calls s cl) c) with (getc s c) in Hg.
+    destruct (HC c k Hg) as [Hl Hi Hc Hp Hph Hd Hds Hdt]. constructor; auto.
+    intros Ha. specialize (Hd Ha). rewrite (holders_eq s c k Hg) in Hd.
+    rewrite (holders_eq (set_calls s cl) c k Hg). change (allN (holds c) (set_calls s cl)) with (allN (holds c) s).
+    cbn [s_calls set_calls].
+    assert (Hz : count_calls c cl = 0).
+    { unfold count_calls. destruct (filter (fun a => a_conn a =? c) cl) as [|a r] eqn:Ef; [reflexivity|].
+      assert (Hin : In a (filter (fun a => a_conn a =? c) cl)) by (rewrite Ef; left; reflexivity).
+      apply filter_In in Hin as [Hin Hc1]. apply Nat.eqb_eq in Hc1. destruct (Hal a Hin) as (k1 & Hk1 & Ha1 & _).
+      rewrite Hc1, Hg in Hk1. injection Hk1 as <-. congruence. }
+    lia.
+Qed.
+
+Lemma held_set_calls s cl : Held s -> (forall c, count_calls c (s_calls s) <= count_calls c cl) -> Held (set_calls s cl).
+Proof.
+  intros HH Hle. apply (held_mono s _ HH). intros c k Hg Ha. change (getc (set_calls s cl) c) with (getc s c) in Hg.
+  exists k. split; [exact Hg|]. split; [exact Ha|].
+  rewrite (holders_eq s c k Hg), (holders_eq (set_calls s cl) c k Hg). specialize (Hle c). cbn [s_calls set_calls].
+  change (allN (holds c) (set_calls s cl)) with (allN (holds c) s). lia.
+Qed.
+
+Lemma step_XBegin s u c a : Inv s -> step_ok s (XBegin u c a).
+Proof.
+  intros [HI HH]. unfold step_ok, step. destruct (find_call u (s_calls s)) eqn:Ef; [exact I|].
+  unfold on_conn. destruct (getc s c) as [k|] eqn:Hg; [|exact I].
+  destruct (k_alive k && negb (cstate_eqb (k_st k) Connecting)) eqn:E; [|exact I]. apply andb_prop in E as [Ha Hnc].
+  apply negb_true_iff, cs_eqb_false in Hnc.
+  cbn [ret]. destruct (gi_calls s (proj1 HI)) as [Hnd Hal]. split.
+  - apply (set_calls_inv0 s _ HI).
+    + rewrite map_app. cbn [map a_thr]. apply nodup_snoc; [exact Hnd|]. apply find_call_none, Ef.
+    + intros x Hx. apply in_app_or in Hx as [Hx|[<-|[]]]; [apply Hal, Hx|]. exists k. auto.
+  - apply (held_set_calls s _ HH). intros c1. rewrite count_calls_app. lia.
+Qed.
+
+Lemma calls_replace s u a a' : GInv s -> find_call u (s_calls s) = Some a -> a_thr a' = u -> a_conn a' = a_conn a ->
+  NoDup (map a_thr (drop_call u (s_calls s) ++ [a'])) /\
+  (forall x, In x (drop_call u (s_calls s) ++ [a']) -> exists k, getc s (a_conn x) = Some k /\ k_alive k = true /\ k_st k <> Connecting) /\
+  (forall c, count_calls c (drop_call u (s_calls s) ++ [a']) = count_calls c (s_calls s)).
+Proof.
+  intros G Hf Ht Hc. destruct (gi_calls s G) as [Hnd Hal]. destruct (find_call_some _ _ _ Hf) as [Hin Hthr].
+  destruct (drop_call_nodup u _ Hnd) as [N1 N2]. split; [|split].
+  - rewrite map_app. cbn [map]. rewrite Ht. apply nodup_snoc; assumption.
+  - intros x Hx. apply in_app_or in Hx as [Hx|[<-|[]]].
+    + apply drop_call_in in Hx as [Hx _]. apply Hal, Hx.
+    + rewrite Hc. apply Hal, Hin.
+  - intros c. rewrite count_calls_app. pose proof (count_calls_drop c u _ a Hnd Hf) as E.
+    unfold count_calls at 2. cbn [filter]. rewrite Hc. destruct (a_conn a =? c); cbn [length]; lia.
+Qed.
+
+Lemma step_XStore s u : Inv s -> step_ok s (XStore u).
+Proof.
+  intros [HI HH]. unfold step_ok, step. destruct (find_call u (s_calls s)) as [a|] eqn:Ef; [|exact I].
+  destruct (a_stored a); [exact I|].
+  destruct (find_call_some _ _ _ Ef) as [Hin Hthr].
+  destruct (gi_calls s (proj1 HI)) as [Hnd Hal]. destruct (Hal a Hin) as (k & Hg & Ha & Hnc). rewrite Hg.
+  destruct (true && negb (Bool.eqb (api_test (a_api a) k) (a_loaded a))) eqn:Eg; [exact I|].
+  cbn [andb] in Eg. apply negb_false_iff, eqb_prop in Eg.
+  set (a' := mkCall u (a_conn a) (a_api a) (a_loaded a) true).
+  destruct (calls_replace s u a a' (proj1 HI) Ef eq_refl eq_refl) as (C1 & C2 & C3).
+  pose proof (set_calls_inv0 s _ HI C1 C2) as HI1.
+  pose proof (held_set_calls s _ HH (fun c => Nat.eq_le_incl _ _ (eq_sym (C3 c)))) as HH1.
+  cbn [ret]. fold a'. destruct (a_loaded a) eqn:El; [|split; assumption].
+  destruct (api_stores (a_api a)) eqn:Es; [|split; assumption]. cbn [andb].
+  (* the test still holds: the connection is up *)
+  assert (Hup : up_k k).
+  { unfold api_test in Eg. destruct (a_api a); try discriminate Es;
+      try (apply cs_eqb_true in Eg; left; exact Eg); apply closable_up_k, Eg. }
+  set (s1 := set_calls s (drop_call u (s_calls s) ++ [a'])).
+  assert (Hg1 : getc s1 (a_conn a) = Some k) by exact Hg.
+  pose proof (proj2 HI1 (a_conn a) k Hg1) as HCk.
+  split.
+  - apply (put_local s1 (a_conn a) k _ HI1 Hg1 Ha); cbn; auto.
+    + right. split; [exact Hup|right; reflexivity].
+    + intros Hx. exfalso. apply Hx. right. reflexivity.
+    + apply (counters_disc k (ci_cnt s1 _ k HCk Ha) Hup).
+    + apply (ci_poll s1 _ k HCk Ha).
+  - apply (held_put s1 (a_conn a) k _ HH1 Hg1 Ha). cbn. lia.
+Qed.
+
+Lemma step_XEnq s u pin : Inv s -> step_ok s (XEnq u pin).
+Proof.
+  intros [HI HH]. unfold step_ok, step. destruct (find_call u (s_calls s)) as [a|] eqn:Ef; [|exact I].
+  destruct (negb (a_stored a)); [exact I|].
+  destruct (find_call_some _ _ _ Ef) as [Hin Hthr].
+  destruct (gi_calls s (proj1 HI)) as [Hnd Hal]. destruct (Hal a Hin) as (k & Hg & Ha & Hnc). rewrite Hg.
+  match goal with |- match (if ?b then _ else _) with _ => _ end => destruct b eqn:Eg end; [exact I|].
+  set (s1 := set_calls s (drop_call u (s_calls s))).
+  assert (HI1 : Inv0 s1).
+  { destruct (drop_call_nodup u _ Hnd) as [N1 _]. apply (set_calls_inv0 s _ HI N1).
+    intros x Hx. apply drop_call_in in Hx as [Hx _]. apply Hal, Hx. }
+  assert (Hg1 : getc s1 (a_conn a) = Some k) by exact Hg.
+  pose proof (proj2 HI1 _ k Hg1) as HCk.
+  assert (Hpl : forall t, task_conn t = a_conn a -> t <> TOther -> (forall c', t <> TRemove c') -> (forall c', t <> TEstablish c') ->
+                raw_pinned t = true -> placed s1 (k_loop k) t).
+  { intros t Ht Hno Hnr Hne Hp. split; [exact Hp|]. split; [intros c0 Hx; exfalso; apply (Hne c0 Hx)|]. destruct t; try (exists k; rewrite Ht; auto); try congruence.
+    all: exfalso; eapply Hnr; reflexivity. }
+  apply finish_ok. cbn [ret].
+  destruct (a_loaded a) eqn:El; [|exact HI1].
+  cbn [andb] in Eg.
+  destruct (a_api a) eqn:Eapi.
+  - (* shutdown *) cbn [andb] in Eg. apply negb_false_iff in Eg. subst pin.
+    apply enq_plain; [exact HI1|reflexivity|apply Hpl; cbn; auto; discriminate|]. intros _. exists k. auto.
+  - (* forceClose *) apply (enq_force s1 (a_conn a) k HI1 Hg1 Ha Hnc).
+  - (* forceCloseWithDelay *)
+    apply enq_plain; [exact HI1|reflexivity|apply Hpl; cbn; auto; discriminate|]. discriminate.
+  - cbn [andb] in Eg. apply negb_false_iff in Eg. subst pin.
+    apply enq_plain; [exact HI1|reflexivity|apply Hpl; cbn; auto; discriminate|]. intros _. exists k. auto.
+  - cbn [andb] in Eg. apply negb_false_iff in Eg. subst pin.
+    apply enq_plain; [exact HI1|reflexivity|apply Hpl; cbn; auto; discriminate|]. intros _. exists k. auto.
+  - cbn [andb] in Eg. apply negb_false_iff in Eg. subst pin.
+    apply enq_plain; [exact HI1|reflexivity|apply Hpl; cbn; auto; discriminate|]. intros _. exists k. auto.
+Qed.
+
+(* ---- the loop's batch ------------------------------------------------------------------------------ *)
+Lemma set_loop_same s l v v' : Inv0 s -> getl s l = Some v ->
+  q_todo v' = q_todo v -> (forall c, cnt (holds c) (q_all v') = cnt (holds c) (q_all v)) ->
+  (forall t, In t (q_all v') -> In t (q_all v)) ->
+  Inv0 (set_loop s l v').
+Proof.
+  intros [G HC] Hv Htodo Hall Hsub. split.
+  - apply (ginv_set_loop s l v v' G Hv). intros t Ht. left. apply Hsub, Ht.
+  - intros c k Hg. rewrite getc_set_loop in Hg.
+    apply (same_for_cinv s (set_loop s l v') c k); [|exact Hg|exact Hg|apply HC, Hg].
+    apply (same_for_set_loop s l v v' c Hv); rewrite ?Htodo; auto.
+Qed.
+
+Lemma held_set_loop s l v v' : Held s -> getl s l = Some v ->
+  (forall c, cnt (holds c) (q_all v) <= cnt (holds c) (q_all v')) -> Held (set_loop s l v').
+Proof.
+  intros HH Hv Hle. apply (held_mono s _ HH). intros c k Hg Ha. rewrite getc_set_loop in Hg.
+  exists k. split; [exact Hg|]. split; [exact Ha|].
+  rewrite (holders_eq s c k Hg), (holders_eq (set_loop s l v') c k Hg).
+  pose proof (allN_set_loop (holds c) s l v v' Hv). specialize (Hle c).
+  change (s_calls (set_loop s l v')) with (s_calls s). lia.
+Qed.
+
+Lemma step_Swap s l : Inv s -> step_ok s (Swap l).
+Proof.
+  intros [HI HH]. unfold step_ok, step. destruct (getl s l) as [v|] eqn:Ev; [|exact I].
+  destruct (q_idle v) eqn:Eid; [|exact I]. cbn [ret].
+  unfold q_idle in Eid. destruct (q_batch v) eqn:Eb; [|discriminate]. destruct (q_spent v) eqn:Es; [|discriminate].
+  fold (set_loop s l (mkLq [] (q_pend v) [])).
+  assert (Hall : forall c, cnt (holds c) (q_all (mkLq [] (q_pend v) [])) = cnt (holds c) (q_all v)).
+  { intros c. unfold q_all. cbn [q_pend q_batch q_spent]. rewrite Eb, Es. cbn [app]. rewrite app_nil_r. reflexivity. }
+  split.
+  - apply (set_loop_same s l v _ HI Ev); [unfold q_todo; cbn [q_pend q_batch]; rewrite Eb, app_nil_r; reflexivity|exact Hall|].
+    intros t. unfold q_all. cbn [q_pend q_batch q_spent]. rewrite Eb, Es. cbn [app]. rewrite app_nil_r. auto.
+  - apply (held_set_loop s l v _ HH Ev). intros c. rewrite Hall. lia.
+Qed.
+
+(* the functors of a finished batch are destroyed: only strong references go away *)
+Lemma step_EndBatch s l : Inv s -> step_ok s (EndBatch l).
+Proof.
+  intros [HI HH]. unfold step_ok, step. destruct (getl s l) as [v|] eqn:Ev; [|exact I].
+  destruct (q_batch v) eqn:Eb; [|exact I]. destruct (q_spent v) eqn:Es; [exact I|].
+  apply finish_ok. fold (set_loop s l (mkLq (q_pend v) [] [])).
+  destruct HI as [G HC]. split.
+  - apply (ginv_set_loop s l v _ G Ev). intros x Hx. left. unfold q_all in *. cbn [q_pend q_batch q_spent] in Hx.
+    rewrite Eb. cbn [app] in *. apply in_or_app. right. exact Hx.
+  - intros c k Hg. rewrite getc_set_loop in Hg. pose proof (HC c k Hg) as HCk.
+    destruct HCk as [Hl Hi Hc Hp Hph Hd Hds Hdt].
+    assert (Htodo : q_todo (mkLq (q_pend v) [] []) = q_todo v) by (unfold q_todo; cbn [q_pend q_batch]; rewrite Eb; reflexivity).
+    constructor; auto.
+    + intros Ha. specialize (Hph Ha).
+      apply (phase_transfer s (set_loop s l (mkLq (q_pend v) [] [])) c k eq_refl eq_refl eq_refl); [| | | | |exact Hph].
+      1-4: pose proof (todoN_set_loop (isE c) s l v (mkLq (q_pend v) [] []) Ev);
+           pose proof (todoN_set_loop (isR c) s l v (mkLq (q_pend v) [] []) Ev);
+           pose proof (todoN_set_loop (isD c) s l v (mkLq (q_pend v) [] []) Ev);
+           pose proof (todoN_set_loop (isF c) s l v (mkLq (q_pend v) [] []) Ev);
+           rewrite Htodo in *; lia.
+      destruct (Nat.eq_dec l (k_loop k)) as [<-|Hn].
+      * rewrite (loop_todo_set_loop_eq s l v _ Ev), Htodo. unfold loop_todo. rewrite Ev. reflexivity.
+      * rewrite loop_todo_set_loop_neq by exact Hn. reflexivity.
+    + intros Ha. specialize (Hd Ha). rewrite (holders_eq s c k Hg) in Hd.
+      rewrite (holders_eq (set_loop s l (mkLq (q_pend v) [] [])) c k Hg).
+      pose proof (allN_set_loop (holds c) s l v (mkLq (q_pend v) [] []) Ev) as E.
+      change (s_calls (set_loop s l (mkLq (q_pend v) [] []))) with (s_calls s).
+      assert (cnt (holds c) (q_all (mkLq (q_pend v) [] [])) <= cnt (holds c) (q_all v)).
+      { unfold q_all. cbn [q_pend q_batch q_spent]. rewrite Eb. cbn [app]. rewrite cnt_app. lia. }
+      lia.
+Qed.
+
+(* ---- running one functor --------------------------------------------------------------------------- *)
+Lemma cnt_in p l t : In t l -> p t = true -> 1 <= cnt p l.
+Proof.
+  induction l as [|x l IH]; intros Hin Hp; [contradiction|]. rewrite cnt_cons. destruct Hin as [<-|Hin].
+  - rewrite Hp. lia.
+  - specialize (IH Hin Hp). lia.
+Qed.
+
+Lemma sumq_ge f ls i v : nth_error ls i = Some v -> f v <= sumq f ls.
+Proof.
+  unfold sumq. revert i. induction ls as [|y ls IH]; intros [|i] H; cbn in *; try discriminate.
+  - injection H as ->. lia.
+  - specialize (IH i H). lia.
+Qed.
+
+Lemma allN_in p s l v t : getl s l = Some v -> In t (q_all v) -> p t = true -> 1 <= allN p s.
+Proof.
+  intros Hv Hin Hp. pose proof (sumq_ge (fun l => cnt p (q_all l)) _ l v Hv). pose proof (cnt_in p _ t Hin Hp).
+  unfold allN. cbn in *. lia.
+Qed.
+
+Lemma todoN_in p s l v t : getl s l = Some v -> In t (q_todo v) -> p t = true -> 1 <= todoN p s.
+Proof.
+  intros Hv Hin Hp. pose proof (sumq_ge (fun l => cnt p (q_todo l)) _ l v Hv). pose proof (cnt_in p _ t Hin Hp).
+  unfold todoN. cbn in *. lia.
+Qed.
+
+Lemma strong_alive s l v t c k : Inv0 s -> getl s l = Some v -> In t (q_all v) -> holds c t = true ->
+  getc s c = Some k -> k_alive k = true.
+Proof.
+  intros [G HC] Hv Hin Hh Hg. destruct (k_alive k) eqn:Ha; [reflexivity|].
+  pose proof (ci_dead s c k (HC c k Hg) Ha) as Hd. rewrite (holders_eq s c k Hg) in Hd.
+  pose proof (allN_in (holds c) s l v t Hv Hin Hh). lia.
+Qed.
+
+(* the state after the head of the batch has been moved to the functors that ran *)
+Definition popped (v : lq) (t : task) (rest : list task) : lq := mkLq (q_pend v) rest (q_spent v ++ [t]).
+
+Lemma popped_all v t rest : q_batch v = t :: rest -> forall p, cnt p (q_all (popped v t rest)) = cnt p (q_all v).
+Proof.
+  intros Hb p. unfold q_all, popped. cbn [q_pend q_batch q_spent]. rewrite Hb, <- app_assoc. reflexivity.
+Qed.
+
+Lemma popped_in v t rest : q_batch v = t :: rest -> forall x, In x (q_all (popped v t rest)) -> In x (q_all v).
+Proof.
+  intros Hb x. unfold q_all, popped. cbn [q_pend q_batch q_spent]. rewrite Hb, !in_app_iff. cbn. intuition.
+Qed.
+
+Lemma popped_todo v t rest : q_batch v = t :: rest -> q_todo v = t :: q_todo (popped v t rest).
+Proof. intros Hb. unfold q_todo, popped. cbn [q_pend q_batch]. rewrite Hb. reflexivity. Qed.
+
+Lemma pop_same_for s l v t rest c : getl s l = Some v -> q_batch v = t :: rest -> about c t = false ->
+  same_for s (set_loop s l (popped v t rest)) c.
+Proof.
+  intros Hv Hb Ha. destruct (about_false c t Ha) as (HE & HR & HD & HF & Hh & Hl).
+  apply (same_for_set_loop s l v _ c Hv); rewrite ?(popped_todo v t rest Hb), ?cnt_cons, ?HE, ?HR, ?HD, ?HF; auto.
+  - cbn [first_life]. rewrite Hl. reflexivity.
+  - apply (popped_all v t rest Hb).
+Qed.
+
+Lemma pop_ginv s l v t rest : GInv s -> getl s l = Some v -> q_batch v = t :: rest -> GInv (set_loop s l (popped v t rest)).
+Proof.
+  intros G Hv Hb. apply (ginv_set_loop s l v _ G Hv). intros x Hx. left. apply (popped_in v t rest Hb x Hx).
+Qed.
+
+Lemma pop_held s l v t rest : Held s -> getl s l = Some v -> q_batch v = t :: rest -> Held (set_loop s l (popped v t rest)).
+Proof.
+  intros HH Hv Hb. apply (held_set_loop s l v _ HH Hv). intros c. rewrite (popped_all v t rest Hb). lia.
+Qed.
+
+(* a functor that is none of the four life-cycle functors leaves every phase alone *)
+Lemma pop_plain_inv s l v t rest : Inv0 s -> getl s l = Some v -> q_batch v = t :: rest -> plain t = true ->
+  Inv0 (set_loop s l (popped v t rest)).
+Proof.
+  intros [G HC] Hv Hb Hp. split; [apply (pop_ginv s l v t rest G Hv Hb)|].
+  intros c k Hg. rewrite getc_set_loop in Hg.
+  apply (same_for_cinv s _ c k); [|exact Hg|exact Hg|apply HC, Hg].
+  destruct (plain_not_life c t Hp) as (HE & HR & HD & HF & Hl).
+  apply (same_for_set_loop s l v _ c Hv); rewrite ?(popped_todo v t rest Hb), ?cnt_cons, ?HE, ?HR, ?HD, ?HF; auto.
+  - cbn [first_life]. rewrite Hl. reflexivity.
+  - apply (popped_all v t rest Hb).
+Qed.
+
+Lemma sumq_single f ls i v : nth_error ls i = Some v ->
+  (forall j w, j <> i -> nth_error ls j = Some w -> f w = 0) -> sumq f ls = f v.
+Proof.
+  unfold sumq. revert i. induction ls as [|y ls IH]; intros [|i] H Hz; cbn in *; try discriminate.
+  - injection H as ->. assert (E : fold_right (fun l n => f l + n) 0 ls = 0).
+    { apply (sumq_zero f ls). intros l Hl. apply In_nth_error in Hl as [j Hj]. apply (Hz (S j) l); [lia|exact Hj]. }
+    rewrite E. lia.
+  - rewrite (IH i H); [|intros j w Hj Hw; apply (Hz (S j) w); [lia|exact Hw]].
+    rewrite (Hz 0 y); [lia|lia|reflexivity].
+Qed.
+
+Lemma cnt_zero_notin p l : (forall t, In t l -> p t = false) -> cnt p l = 0.
+Proof.
+  induction l as [|x l IH]; intros H; [reflexivity|]. rewrite cnt_cons, (H x (or_introl eq_refl)), IH; [reflexivity|].
+  intros t Ht. apply H. right. exact Ht.
+Qed.
+
+(* the life-cycle functors of connection c (other than the owner hop) sit in c's own loop *)
+Lemma todoN_local p s c k : GInv s -> getc s c = Some k -> k_loop k <= s_nio s ->
+  (forall t, p t = true -> task_conn t = c /\ t <> TOther /\ forall c', t <> TRemove c') ->
+  todoN p s = cnt p (loop_todo s (k_loop k)).
+Proof.
+  intros G Hg Hle Hp. destruct (getl_valid s (k_loop k) G Hle) as [v Hv].
+  unfold loop_todo. rewrite Hv. unfold todoN.
+  apply (sumq_single (fun l => cnt p (q_todo l)) (s_loops s) (k_loop k) v Hv).
+  intros j w Hj Hw. apply cnt_zero_notin. intros t Ht. destruct (p t) eqn:Ep; [|reflexivity]. exfalso.
+  destruct (Hp t Ep) as (Hc & Hno & Hnr).
+  assert (Hin : In t (q_all w)) by (rewrite q_all_todo; apply in_or_app; right; exact Ht).
+  destruct (gi_placed s G j w t Hw Hin) as [_ [_ Hpl]].
+  destruct t; try (destruct Hpl as (k1 & Hk1 & Hl1 & _); rewrite Hc, Hg in Hk1; injection Hk1 as <-; congruence); try congruence.
+  all: eapply Hnr; reflexivity.
+Qed.
+
+Lemma isE_local c t : isE c t = true -> task_conn t = c /\ t <> TOther /\ forall c', t <> TRemove c'.
+Proof. destruct t; cbn; try discriminate. intros H. apply Nat.eqb_eq in H. repeat split; try discriminate; auto. Qed.
+Lemma isD_local c t : isD c t = true -> task_conn t = c /\ t <> TOther /\ forall c', t <> TRemove c'.
+Proof. destruct t; cbn; try discriminate. intros H. apply Nat.eqb_eq in H. repeat split; try discriminate; auto. Qed.
+Lemma isF_local c t : isF c t = true -> task_conn t = c /\ t <> TOther /\ forall c', t <> TRemove c'.
+Proof. destruct t; cbn; try discriminate. intros H. apply Nat.eqb_eq in H. repeat split; try discriminate; auto. Qed.
+
+Lemma first_life_D c l : cnt (isE c) l = 0 -> cnt (isF c) l = 0 -> 1 <= cnt (isD c) l -> first_life c l = Some LD.
+Proof.
+  induction l as [|t l IH]; [cbn; lia|]. rewrite !cnt_cons. cbn [first_life]. unfold life_of.
+  destruct (isE c t); [lia|]. destruct (isD c t); [reflexivity|]. destruct (isF c t); [lia|]. cbn [plus]. exact IH.
+Qed.
+
+Lemma todoN_pop p s l v t rest : getl s l = Some v -> q_batch v = t :: rest ->
+  todoN p (set_loop s l (popped v t rest)) + (if p t then 1 else 0) = todoN p s.
+Proof.
+  intros Hv Hb. pose proof (todoN_set_loop p s l v (popped v t rest) Hv) as E.
+  rewrite (popped_todo v t rest Hb), cnt_cons in E. lia.
+Qed.
+
+Lemma loop_todo_pop s l v t rest : getl s l = Some v -> q_batch v = t :: rest ->
+  loop_todo s l = t :: loop_todo (set_loop s l (popped v t rest)) l.
+Proof.
+  intros Hv Hb. rewrite (loop_todo_set_loop_eq s l v _ Hv). unfold loop_todo. rewrite Hv. apply popped_todo, Hb.
+Qed.
+
+Lemma cinv_build s c k : k_alive k = true ->
+  k_loop k <= s_nio s -> (k_ccb k <> CbServer -> k_loop k = 0) ->
+  (~ up_k k -> k_wr k = false /\ k_rd k = false) -> counters_ok k -> poller_ok (s_readd s) k -> phase s c k ->
+  k_dtors k = 0 -> k_closes k = 0 -> CInv s c k.
+Proof.
+  intros Ha H1 H2 H3 H4 H5 H6 H7 H8. constructor; auto; try (intros Hx; congruence). rewrite Ha, H7, H8. auto.
+Qed.
+
+Definition est (readd : bool) (k : lc) : lc :=
+  chan_update readd (set_life k Connected (S (k_ups k)) (k_downs k)) (k_wr k) true.
+Definition closed (readd : bool) (k : lc) : lc :=
+  chan_update readd (set_life k Disconnected (k_ups k) (S (k_downs k))) false false.
+Definition unmapped (k : lc) : lc := set_own k (k_ccb k) false (k_urefs k) (k_delayed k).
+
+Lemma isE_about c t : isE c t = true -> about c t = true.
+Proof. destruct t; cbn; auto; discriminate. Qed.
+Lemma about_other c c1 t : about c t = true -> c1 <> c -> about c1 t = false.
+Proof.
+  intros H Hn. destruct (about_eq c t H) as [Hno Hc]. destruct t; cbn in *; try congruence; apply Nat.eqb_neq; congruence.
+Qed.
+
+Lemma run_establish s l v c rest : Inv s -> getl s l = Some v -> q_batch v = TEstablish c :: rest ->
+  match finish (run_task (set_loop s l (popped v (TEstablish c) rest)) l (TEstablish c) true true) l with
+  | Ok (s', _) => Inv s' | Rejected => True | Fault => False end.
+Proof.
+  intros [[G HC] HH] Hv Hb. set (t := TEstablish c). set (s1 := set_loop s l (popped v t rest)).
+  assert (Hin : In t (q_all v)) by (unfold q_all; rewrite Hb; apply in_or_app; right; left; reflexivity).
+  destruct (gi_placed s G l v t Hv Hin) as [_ [Hne (k & Hg & Hl & _)]]. cbn [task_conn t] in Hg.
+  assert (Hh : holds c t = true) by (unfold holds; cbn; rewrite Nat.eqb_refl; reflexivity).
+  pose proof (strong_alive s l v t c k (conj G HC) Hv Hin Hh Hg) as Ha.
+  pose proof (HC c k Hg) as HCk. pose proof (ci_phase s c k HCk Ha) as Hph.
+  assert (HE1 : 1 <= todoN (isE c) s).
+  { apply (todoN_in (isE c) s l v t Hv); [rewrite (popped_todo v t rest Hb); left; reflexivity|cbn; apply Nat.eqb_refl]. }
+  assert (Hst : k_st k = Connecting).
+  { unfold phase in Hph. destruct (k_st k); [reflexivity|destruct Hph as (_ & Hx & _); lia|destruct Hph as (_ & Hx & _); lia|destruct Hph as (Hx & _); lia]. }
+  unfold phase in Hph. rewrite Hst in Hph. destruct Hph as (Hadd & Hcb & HE & HR & HF & Hfl & Hown).
+  destruct (ci_idle s c k HCk Ha) as [Hwr Hrd]; [unfold up_k; rewrite Hst; intros [?|?]; discriminate|].
+  pose proof (ci_cnt s c k HCk Ha) as Hcnt. unfold counters_ok in Hcnt. rewrite Hst in Hcnt. destruct Hcnt as [Hups Hdowns].
+  (* the call succeeds *)
+  unfold run_task, t, establish. change (getc s1 c) with (getc s c). rewrite Hg, Ha, Hl, Nat.eqb_refl, Hst. cbn [negb cstate_eqb emit set_life k_wr].
+  fold (est (s_readd s1) k). change (s_readd s1) with (s_readd s).
+  apply finish_ok. set (k' := est (s_readd s) k). set (s2 := put s1 c k').
+  pose proof (chan_update_fields (s_readd s) (set_life k Connected (S (k_ups k)) (k_downs k)) (k_wr k) true) as F. cbv zeta in F.
+  fold (est (s_readd s) k) in F. fold k' in F. cbn [set_life k_st k_rflag k_loop k_alive k_ccb k_mapped k_urefs k_delayed k_fin k_ups k_downs k_dtors k_closes] in F.
+  destruct F as (F1 & F2 & F3 & F4 & F5 & F6 & F7 & F8 & F9 & F10 & F11 & F12 & F13 & F14 & F15 & F16 & F17).
+  assert (G1 : GInv s1) by (apply (pop_ginv s l v t rest G Hv Hb)).
+  apply (inv0_frame s s2 c (conj G HC)).
+  - apply (ginv_put s1 c k k' G1 Hg); try congruence. intros Hc. exfalso.
+    destruct (gi_cli s G c Hc) as (_ & k1 & Hk1 & _ & _ & _ & [Hu|Hu]); rewrite Hg in Hk1; injection Hk1 as <-; congruence.
+  - intros c1 Hn. split; [unfold s2; rewrite getc_put_neq by auto; reflexivity|].
+    apply (same_for_trans s s1 s2 c1); [|apply same_for_put].
+    apply (pop_same_for s l v t rest c1 Hv Hb). cbn. apply Nat.eqb_neq. auto.
+  - intros k2 Hk2. unfold s2 in Hk2. rewrite getc_put_eq in Hk2 by (eapply getc_lt, Hg). injection Hk2 as <-.
+    destruct (ci_loop s c k HCk) as [L1 L2]. destruct (ci_dtor s c k HCk) as [D1 D2]. rewrite Ha in D1.
+    apply cinv_build.
+    + congruence.
+    + change (s_nio s2) with (s_nio s). congruence.
+    + intros Hx. rewrite F6. apply L2. congruence.
+    + intros Hx. exfalso. apply Hx. left. exact F1.
+    + unfold counters_ok. rewrite F1, F13, F14. lia.
+    + apply chan_update_poller.
+    + (* phase: Connected *)
+      pose proof (todoN_pop (isE c) s l v t rest Hv Hb) as PE. pose proof (todoN_pop (isR c) s l v t rest Hv Hb) as PR.
+      pose proof (todoN_pop (isD c) s l v t rest Hv Hb) as PD. pose proof (todoN_pop (isF c) s l v t rest Hv Hb) as PF.
+      assert (Et : isE c t = true /\ isR c t = false /\ isD c t = false /\ isF c t = false)
+        by (unfold t; cbn; rewrite Nat.eqb_refl; auto).
+      destruct Et as (Et1 & Et2 & Et3 & Et4). rewrite Et1 in PE. rewrite Et2 in PR. rewrite Et3 in PD. rewrite Et4 in PF.
+      fold s1 in PE, PR, PD, PF.
+      unfold phase, owner_alive. rewrite F1, F5, F8, F9.
+      change (todoN (isE c) s2) with (todoN (isE c) s1). change (todoN (isR c) s2) with (todoN (isR c) s1).
+      change (todoN (isD c) s2) with (todoN (isD c) s1). change (todoN (isF c) s2) with (todoN (isF c) s1).
+      change (s_srv s2) with (s_srv s). change (loop_todo s2 (k_loop k')) with (loop_todo s1 (k_loop k')).
+      split; [reflexivity|]. split; [lia|]. split; [lia|].
+      destruct Hown as [(Hm & HD & Hs)|(Hm & HD & Hs)].
+      * left. rewrite Hm, Hcb. split; [reflexivity|]. split; [lia|exact Hs].
+      * right. left. rewrite Hm. split; [reflexivity|]. split; [lia|]. split; [exact Hcb|]. split; [exact Hs|].
+        rewrite F6, Hl.
+        assert (G1' : k_loop k <= s_nio s1) by (rewrite Hl in *; exact L1).
+        assert (Hg1 : getc s1 c = Some k) by exact Hg.
+        rewrite Hl in G1'.
+        pose proof (todoN_local (isE c) s1 c k G1 Hg1 (eq_ind_r (fun x => x <= _) G1' Hl) (isE_local c)) as LE'.
+        pose proof (todoN_local (isD c) s1 c k G1 Hg1 (eq_ind_r (fun x => x <= _) G1' Hl) (isD_local c)) as LD'.
+        pose proof (todoN_local (isF c) s1 c k G1 Hg1 (eq_ind_r (fun x => x <= _) G1' Hl) (isF_local c)) as LF'.
+        rewrite Hl in LE', LD', LF'.
+        apply first_life_D; lia.
+    + congruence.
+    + congruence.
+Qed.
+
+Lemma invx_of_inv0 s c : Inv0 s -> InvX s c.
+Proof. intros [G HC]. split; [exact G|]. intros c1 k1 _ Hg. apply HC, Hg. Qed.
+
+Lemma invx_pop s l v t rest c : Inv0 s -> getl s l = Some v -> q_batch v = t :: rest -> about c t = true ->
+  InvX (set_loop s l (popped v t rest)) c.
+Proof.
+  intros [G HC] Hv Hb Hab. split; [apply (pop_ginv s l v t rest G Hv Hb)|].
+  intros c1 k1 Hn Hg. rewrite getc_set_loop in Hg.
+  apply (same_for_cinv s _ c1 k1 (pop_same_for s l v t rest c1 Hv Hb (about_other c c1 t Hab Hn)) Hg Hg), HC, Hg.
+Qed.
+
+(* from "everything but c" to everything, when the step only touched c and queued functors about c *)
+Lemma invx_close s s' c : InvX s c -> GInv s' ->
+  (forall c1, c1 <> c -> getc s' c1 = getc s c1 /\ same_for s s' c1) ->
+  (forall k, getc s' c = Some k -> CInv s' c k) -> Inv0 s'.
+Proof.
+  intros [G HC] G' Hfr Hc0. split; [exact G'|]. intros c1 k Hg.
+  destruct (Nat.eq_dec c1 c) as [->|Hn]; [apply Hc0, Hg|].
+  destruct (Hfr c1 Hn) as [Hgc Hsf]. rewrite Hgc in Hg.
+  apply (same_for_cinv s s' c1 k Hsf Hg); [rewrite Hgc; exact Hg|apply (HC c1 k Hn Hg)].
+Qed.
+
+Lemma same_for_put_enq s c k' l t c1 : c1 <> c -> about c t = true -> same_for s (enq (put s c k') l t) c1.
+Proof.
+  intros Hn Hab. apply (same_for_trans s (put s c k') _ c1); [apply same_for_put|].
+  apply same_for_enq, (about_other c c1 t Hab Hn).
+Qed.
+
+Lemma ginv_put_nc s c0 k k0 : GInv s -> getc s c0 = Some k -> k_loop k0 = k_loop k -> k_alive k0 = k_alive k ->
+  (k_st k <> Connecting -> k_st k0 <> Connecting) -> s_cliconn s <> Some c0 -> GInv (put s c0 k0).
+Proof. intros G Hg Hl Ha Hs Hn. apply (ginv_put s c0 k k0 G Hg Hl Ha Hs). intros Hc. contradiction. Qed.
+
+Definition clear_cli (s : sys) : sys :=
+  mkSys (s_nio s) (s_readd s) (s_conns s) (s_loops s) (s_rr s) (s_srv s) (s_cli s) None (s_calls s).
+
+Lemma ginv_clear_cli s c k k0 : GInv s -> s_cliconn s = Some c -> getc s c = Some k ->
+  k_loop k0 = k_loop k -> k_alive k0 = k_alive k -> (k_st k <> Connecting -> k_st k0 <> Connecting) ->
+  GInv (clear_cli (put s c k0)).
+Proof.
+  intros [G1 Gr G2 [G3 G3'] G4] Hc Hg Hl Ha Hs.
+  pose proof (conns_ext_put s c k k0 Hg Hl Hs) as Hext.
+  constructor.
+  - exact G1.
+  - exact Gr.
+  - intros l v t Hv Hin. apply (placed_mono s _ l t Hext). apply (G2 l v t Hv Hin).
+  - split; [exact G3|]. intros a Hin. destruct (G3' a Hin) as (k1 & Hk1 & Ha1 & Hs1).
+    change (getc (clear_cli (put s c k0)) (a_conn a)) with (getc (put s c k0) (a_conn a)).
+    destruct (Nat.eq_dec c (a_conn a)) as [E|Hn].
+    + exists k0. rewrite <- E, getc_put_eq by (eapply getc_lt, Hg). split; [reflexivity|]. rewrite <- E in Hk1.
+      assert (k1 = k) by congruence. subst k1. split; [congruence|auto].
+    + exists k1. rewrite getc_put_neq by exact Hn. auto.
+  - intros c1 Hc1. discriminate.
+Qed.
+
+Lemma same_for_clear_cli s c1 : same_for s (clear_cli s) c1 -> True. Proof. auto. Qed.
+
+(* TcpConnection::handleClose with its owner's close callback *)
+Lemma handle_close_inv s thr c k :
+  InvX s c -> getc s c = Some k -> k_alive k = true -> up_k k -> k_loop k = thr ->
+  k_loop k <= s_nio s -> (k_ccb k <> CbServer -> k_loop k = 0) ->
+  k_added k = true -> counters_ok k -> k_dtors k = 0 -> k_closes k = 0 ->
+  todoN (isE c) s = 0 -> todoN (isR c) s = 0 -> todoN (isD c) s = 0 ->
+  ((k_mapped k = true /\ owner_alive s c k) \/ (k_mapped k = false /\ k_ccb k = CbDetail)) ->
+  exists s', handle_close s thr c = Ok (s', [ODown thr c]) /\ Inv0 s'.
+Proof.
+  intros [G HCx] Hg Ha Hup Hl Hle Hl0 Hadd Hcnt Hdt Hcl HE HR HD Hown.
+  unfold handle_close. rewrite Hg, Hl, Nat.eqb_refl, (proj2 (closable_up_k k) Hup). cbn [negb bind emit].
+  fold (closed (s_readd s) k). set (k1 := closed (s_readd s) k). set (s1 := put s c k1).
+  pose proof (chan_update_fields (s_readd s) (set_life k Disconnected (k_ups k) (S (k_downs k))) false false) as F. cbv zeta in F.
+  fold (closed (s_readd s) k) in F. fold k1 in F.
+  cbn [set_life k_st k_rflag k_loop k_alive k_ccb k_mapped k_urefs k_delayed k_fin k_ups k_downs k_dtors k_closes] in F.
+  destruct F as (F1 & F2 & F3 & F4 & F5 & F6 & F7 & F8 & F9 & F10 & F11 & F12 & F13 & F14 & F15 & F16 & F17).
+  pose proof (chan_update_poller (s_readd s) (set_life k Disconnected (k_ups k) (S (k_downs k))) false false) as P1.
+  fold (closed (s_readd s) k) in P1. fold k1 in P1.
+  assert (Hlt : c < length (s_conns s)) by (eapply getc_lt, Hg).
+  assert (Hg1 : getc s1 c = Some k1) by (apply getc_put_eq, Hlt).
+  assert (Hu1 : k_ups k1 = 1 /\ k_downs k1 = 1).
+  { unfold counters_ok in Hcnt. rewrite F13, F14. destruct Hup as [E|E]; rewrite E in Hcnt; lia. }
+  assert (Hnc : k_st k <> Connecting -> k_st k1 <> Connecting) by (intros _; congruence).
+  destruct (getl_valid s (k_loop k) G Hle) as [v Hv].
+  (* how the invariant of c is rebuilt at the end *)
+  assert (Hfin : forall s2 k2, GInv s2 ->
+            (forall c1, c1 <> c -> getc s2 c1 = getc s c1 /\ same_for s s2 c1) ->
+            getc s2 c = Some k2 ->
+            k_st k2 = Disconnected -> k_wr k2 = false -> k_rd k2 = false -> k_added k2 = true -> k_pidx k2 = k_pidx k1 ->
+            k_loop k2 = k_loop k -> k_alive k2 = true -> k_ccb k2 = k_ccb k -> k_ups k2 = 1 -> k_downs k2 = 1 ->
+            k_dtors k2 = 0 -> k_closes k2 = 0 ->
+            s_nio s2 = s_nio s -> s_readd s2 = s_readd s -> phase s2 c k2 -> Inv0 s2).
+  { intros s2 k2 G2 Hfr Hk2 E1 E2 E3 E4 E5 E6 E7 E8 E9 E10 E11 E12 Hn2 Hr2 Hph2.
+    apply (invx_close s s2 c (conj G HCx) G2 Hfr). intros k3 Hk3. rewrite Hk2 in Hk3. injection Hk3 as <-.
+    apply cinv_build; auto.
+    - rewrite Hn2. congruence.
+    - intros Hx. rewrite E6. apply Hl0. congruence.
+    - unfold counters_ok. rewrite E1. auto.
+    - rewrite Hr2. unfold poller_ok, k_none in *. rewrite E4, E5, E2, E3. rewrite F5, F2, F3 in P1. exact P1. }
+  destruct (k_ccb k) eqn:Ecb.
+  - (* TcpServer::removeConnection *)
+    destruct Hown as [(Hm & Hs)|(_ & Hx)]; [|discriminate]. unfold owner_alive in Hs. rewrite Ecb in Hs.
+    assert (Hncli : s_cliconn s <> Some c).
+    { intros Hc. destruct (gi_cli s G c Hc) as (_ & k0 & Hk0 & _ & _ & Hx & _). rewrite Hg in Hk0. injection Hk0 as <-. congruence. }
+    pose proof (ginv_put_nc s c k k1 G Hg F6 F7 Hnc Hncli) as G1.
+    unfold close_cb. rewrite Hg1, F8. change (s_srv s1) with (s_srv s). rewrite Hs. cbn [negb].
+    destruct (thr =? 0) eqn:Et.
+    + (* on the acceptor loop: removeConnectionInLoop runs inline *)
+      unfold remove_in_loop. change (s_srv s1) with (s_srv s). rewrite Hs, Et, Hg1, F9, Hm. cbn [negb ret app].
+      set (k2 := set_own k1 (k_ccb k1) false (k_urefs k1) (k_delayed k1)). set (t := TDestroy c).
+      set (s2 := enq (put s1 c k2) (k_loop k1) t).
+      assert (Hv2 : getl (put s1 c k2) (k_loop k1) = Some v) by (rewrite F6; exact Hv).
+      assert (Hlt1 : c < length (s_conns s1)) by (unfold s1; rewrite length_conns_put; exact Hlt).
+      destruct (enq_fields (put s1 c k2) (k_loop k1) t) as (N1 & N2 & N3 & N4 & N5 & N6).
+      exists s2. split; [reflexivity|].
+      apply (Hfin s2 k2); try (cbn; tauto); try reflexivity; try (cbn; congruence).
+      * apply ginv_enq.
+        -- apply (ginv_put_nc s1 c k1 k2 G1 Hg1 eq_refl eq_refl (fun H => H)). exact Hncli.
+        -- split; [reflexivity|]. split; [intros ? Hx; discriminate Hx|]. exists k2. rewrite getc_put_eq by exact Hlt1. split; [reflexivity|]. split; [reflexivity|discriminate].
+      * intros c1 Hn. split.
+        -- unfold s2. rewrite getc_enq. unfold s1. rewrite !getc_put_neq by auto. reflexivity.
+        -- apply (same_for_trans s s1 s2 c1); [apply same_for_put|]. apply same_for_put_enq; [exact Hn|]. cbn. apply Nat.eqb_refl.
+      * unfold s2. rewrite getc_enq. apply getc_put_eq, Hlt1.
+      * unfold phase. assert (Hs2 : k_st k2 = Disconnected) by exact F1. rewrite Hs2. fold s2.
+        unfold s2. rewrite (todoN_enq (isE c) _ _ t v Hv2), (todoN_enq (isR c) _ _ t v Hv2), (todoN_enq (isD c) _ _ t v Hv2).
+        unfold t. cbn [isE isR isD]. rewrite Nat.eqb_refl.
+        change (todoN (isE c) (put s1 c k2)) with (todoN (isE c) s). change (todoN (isR c) (put s1 c k2)) with (todoN (isR c) s).
+        change (todoN (isD c) (put s1 c k2)) with (todoN (isD c) s).
+        split; [lia|]. right. left. cbn. split; [exact F5|]. split; [reflexivity|]. split; lia.
+    + (* on an io loop: the hop to the acceptor loop is queued *)
+      cbn [ret app]. set (t := TRemove c). set (s2 := enq s1 0 t).
+      destruct (getl_valid s 0 G (Nat.le_0_l _)) as [v0 Hv0].
+      assert (Hv2 : getl s1 0 = Some v0) by exact Hv0.
+      destruct (enq_fields s1 0 t) as (N1 & N2 & N3 & N4 & N5 & N6).
+      exists s2. split; [reflexivity|].
+      apply (Hfin s2 k1); try reflexivity; try tauto; try congruence.
+      * apply ginv_enq; [exact G1|]. split; [reflexivity|]. split; [intros ? Hx; discriminate Hx|]. split; [reflexivity|]. unfold s1. rewrite length_conns_put. exact Hlt.
+      * intros c1 Hn. split.
+        -- unfold s2. rewrite getc_enq. unfold s1. rewrite getc_put_neq by auto. reflexivity.
+        -- apply same_for_put_enq; [exact Hn|]. cbn. apply Nat.eqb_refl.
+      * unfold s2. rewrite getc_enq. exact Hg1.
+      * unfold phase. rewrite F1. unfold s2.
+        rewrite (todoN_enq (isE c) _ _ t v0 Hv2), (todoN_enq (isR c) _ _ t v0 Hv2), (todoN_enq (isD c) _ _ t v0 Hv2).
+        unfold t. cbn [isE isR isD]. rewrite Nat.eqb_refl.
+        change (todoN (isE c) s1) with (todoN (isE c) s). change (todoN (isR c) s1) with (todoN (isR c) s).
+        change (todoN (isD c) s1) with (todoN (isD c) s). fold t. rewrite N3. change (s_srv s1) with (s_srv s).
+        split; [lia|]. left. rewrite F5, F9, F8, Hm. repeat split; auto; lia.
+  - (* TcpClient::removeConnection *)
+    destruct Hown as [(Hm & Hs)|(_ & Hx)]; [|discriminate]. unfold owner_alive in Hs. rewrite Ecb in Hs. destruct Hs as [Hs Hcc].
+    assert (Hl00 : k_loop k = 0) by (apply Hl0; discriminate).
+    unfold close_cb. rewrite Hg1, F8. change (s_cli s1) with (s_cli s). change (s_cliconn s1) with (s_cliconn s).
+    rewrite Hs, Hcc, <- Hl, Hl00, !Nat.eqb_refl. cbn [negb ret app].
+    set (k2 := set_own k1 CbClient false (k_urefs k1) (k_delayed k1)). set (t := TDestroy c).
+    match goal with |- exists s', Ok (enq ?sx 0 t, _) = _ /\ _ => set (s1c := sx) end.
+    assert (Es1c : s1c = clear_cli (put (put s c k1) c k2)) by reflexivity.
+    set (s2 := enq s1c 0 t).
+    assert (Hv2 : getl s1c 0 = Some v) by (rewrite Hl00 in Hv; exact Hv).
+    assert (Hlt1 : c < length (s_conns s1)) by (unfold s1; rewrite length_conns_put; exact Hlt).
+    destruct (enq_fields s1c 0 t) as (N1 & N2 & N3 & N4 & N5 & N6).
+    exists s2. split; [reflexivity|].
+    assert (Hput2 : put (put s c k1) c k2 = put s c k2).
+    { unfold put, set_conns. cbn. f_equal. clear. generalize (s_conns s) c. induction l as [|x l IH]; intros [|n]; cbn; auto. f_equal. apply IH. }
+    apply (Hfin s2 k2); try (cbn; tauto); try reflexivity; try (cbn; congruence).
+    + apply ginv_enq.
+      * rewrite Es1c, Hput2. apply (ginv_clear_cli s c k k2 G Hcc Hg); cbn; auto.
+      * split; [reflexivity|]. split; [intros ? Hx; discriminate Hx|]. exists k2. split; [|cbn; split; [congruence|discriminate]].
+        change (getc s1c c) with (getc (put s1 c k2) c). apply getc_put_eq, Hlt1.
+    + intros c1 Hn. split.
+      * unfold s2. rewrite getc_enq. change (getc s1c c1) with (getc (put s1 c k2) c1). unfold s1. rewrite !getc_put_neq by auto. reflexivity.
+      * apply (same_for_trans s s1c s2 c1); [|apply same_for_enq; cbn; apply Nat.eqb_neq; auto].
+        (* clearing connection_ only matters to the connection it named *)
+        constructor; try reflexivity.
+        cbn. rewrite Hcc. split; [intros [_ Hx]; discriminate|]. intros [_ Hx]. injection Hx as Hx. congruence.
+    + unfold s2. rewrite getc_enq. change (getc s1c c) with (getc (put s1 c k2) c). apply getc_put_eq, Hlt1.
+    + unfold phase. assert (Hs2 : k_st k2 = Disconnected) by exact F1. rewrite Hs2. unfold s2.
+      rewrite (todoN_enq (isE c) _ _ t v Hv2), (todoN_enq (isR c) _ _ t v Hv2), (todoN_enq (isD c) _ _ t v Hv2).
+      unfold t. cbn [isE isR isD]. rewrite Nat.eqb_refl.
+      change (todoN (isE c) s1c) with (todoN (isE c) s). change (todoN (isR c) s1c) with (todoN (isR c) s).
+      change (todoN (isD c) s1c) with (todoN (isD c) s).
+      split; [lia|]. right. left. cbn. split; [exact F5|]. split; [reflexivity|]. split; lia.
+  - (* detail::removeConnection *)
+    destruct Hown as [(_ & Hs)|(Hm & _)]; [unfold owner_alive in Hs; rewrite Ecb in Hs; contradiction|].
+    assert (Hncli : s_cliconn s <> Some c).
+    { intros Hc. destruct (gi_cli s G c Hc) as (_ & k0 & Hk0 & _ & _ & Hx & _). rewrite Hg in Hk0. injection Hk0 as <-. congruence. }
+    pose proof (ginv_put_nc s c k k1 G Hg F6 F7 Hnc Hncli) as G1.
+    unfold close_cb. rewrite Hg1, F8. cbn [ret app]. set (t := TDestroy c). set (s2 := enq s1 (k_loop k1) t).
+    assert (Hv2 : getl s1 (k_loop k1) = Some v) by (rewrite F6; exact Hv).
+    destruct (enq_fields s1 (k_loop k1) t) as (N1 & N2 & N3 & N4 & N5 & N6).
+    exists s2. split; [reflexivity|].
+    apply (Hfin s2 k1); try reflexivity; try tauto; try congruence.
+    + apply ginv_enq; [exact G1|]. split; [reflexivity|]. split; [intros ? Hx; discriminate Hx|]. exists k1. split; [exact Hg1|]. split; [reflexivity|discriminate].
+    + intros c1 Hn. split.
+      * unfold s2. rewrite getc_enq. unfold s1. rewrite getc_put_neq by auto. reflexivity.
+      * apply same_for_put_enq; [exact Hn|]. cbn. apply Nat.eqb_refl.
+    + unfold s2. rewrite getc_enq. exact Hg1.
+    + unfold phase. rewrite F1. unfold s2.
+      rewrite (todoN_enq (isE c) _ _ t v Hv2), (todoN_enq (isR c) _ _ t v Hv2), (todoN_enq (isD c) _ _ t v Hv2).
+      unfold t. cbn [isE isR isD]. rewrite Nat.eqb_refl.
+      change (todoN (isE c) s1) with (todoN (isE c) s). change (todoN (isR c) s1) with (todoN (isR c) s).
+      change (todoN (isD c) s1) with (todoN (isD c) s).
+      split; [lia|]. right. left. rewrite F5, F9, Hm. repeat split; auto; lia.
+Qed.
+
+Lemma run_forceclose s l v c rest : Inv s -> getl s l = Some v -> q_batch v = TForceClose c :: rest ->
+  match finish (run_task (set_loop s l (popped v (TForceClose c) rest)) l (TForceClose c) true true) l with
+  | Ok (s', _) => Inv s' | Rejected => True | Fault => False end.
+Proof.
+  intros [[G HC] HH] Hv Hb. set (t := TForceClose c). set (s1 := set_loop s l (popped v t rest)).
+  assert (Hin : In t (q_all v)) by (unfold q_all; rewrite Hb; apply in_or_app; right; left; reflexivity).
+  destruct (gi_placed s G l v t Hv Hin) as [_ [_ (k & Hg & Hl & Hnc)]]. cbn [task_conn t] in Hg. specialize (Hnc eq_refl).
+  assert (Hh : holds c t = true) by (unfold holds; cbn; rewrite Nat.eqb_refl; reflexivity).
+  pose proof (strong_alive s l v t c k (conj G HC) Hv Hin Hh Hg) as Ha.
+  pose proof (HC c k Hg) as HCk. pose proof (ci_phase s c k HCk Ha) as Hph.
+  assert (Hab : about c t = true) by (cbn; apply Nat.eqb_refl).
+  pose proof (invx_pop s l v t rest c (conj G HC) Hv Hb Hab) as HX. fold s1 in HX.
+  assert (Et : isE c t = false /\ isR c t = false /\ isD c t = false) by (unfold t; cbn; auto).
+  destruct Et as (Et1 & Et2 & Et3).
+  pose proof (todoN_pop (isE c) s l v t rest Hv Hb) as PE. pose proof (todoN_pop (isR c) s l v t rest Hv Hb) as PR.
+  pose proof (todoN_pop (isD c) s l v t rest Hv Hb) as PD. rewrite Et1 in PE. rewrite Et2 in PR. rewrite Et3 in PD. fold s1 in PE, PR, PD.
+  assert (PE' : todoN (isE c) s1 = todoN (isE c) s) by lia. assert (PR' : todoN (isR c) s1 = todoN (isR c) s) by lia.
+  assert (PD' : todoN (isD c) s1 = todoN (isD c) s) by lia. clear PE PR PD.
+  destruct (ci_loop s c k HCk) as [L1 L2]. destruct (ci_dtor s c k HCk) as [D1 D2]. rewrite Ha in D1.
+  unfold run_task, t. change (getc s1 c) with (getc s c). rewrite Hg.
+  destruct (k_closable k) eqn:Ecl.
+  - apply closable_up_k in Ecl.
+    destruct (handle_close_inv s1 l c k HX Hg Ha Ecl Hl) as (s' & -> & HI'); auto; try lia; try congruence.
+    + unfold phase in Hph. destruct Ecl as [E|E]; rewrite E in Hph; apply Hph.
+    + apply (ci_cnt s c k HCk Ha).
+    + unfold phase in Hph. destruct Ecl as [E|E]; rewrite E in Hph; destruct Hph as (_ & Hx & _); lia.
+    + unfold phase in Hph. destruct Ecl as [E|E]; rewrite E in Hph; destruct Hph as (_ & _ & Hx & _); lia.
+    + assert (Hcase : (k_mapped k = true /\ todoN (isD c) s = 0 /\ owner_alive s c k) \/
+                      (k_mapped k = false /\ todoN (isD c) s = 0 /\ k_ccb k = CbDetail)).
+      { unfold phase in Hph.
+        assert (Hb4 : k_mapped k = true /\ todoN (isD c) s = 0 /\ owner_alive s c k \/
+                k_mapped k = false /\ todoN (isD c) s = 1 /\ k_ccb k = CbServer /\ s_srv s = false /\ first_life c (loop_todo s (k_loop k)) = Some LD \/
+                k_mapped k = false /\ todoN (isD c) s = 0 /\ k_ccb k = CbDetail /\ (1 <= k_urefs k \/ 1 <= todoN (isF c) s))
+          by (destruct Ecl as [E|E]; rewrite E in Hph; apply Hph).
+        destruct Hb4 as [B|[(_ & _ & _ & _ & B)|(B1 & B2 & B3 & _)]]; [left; exact B| |right; auto].
+        exfalso. rewrite Hl, (loop_todo_pop s l v t rest Hv Hb) in B. cbn [first_life] in B. unfold life_of, t in B. cbn in B.
+        rewrite Nat.eqb_refl in B. discriminate. }
+      destruct Hcase as [(B1 & B2 & B3)|(B1 & B2 & B3)]; lia.
+    + unfold phase in Hph.
+      assert (Hb4 : k_mapped k = true /\ todoN (isD c) s = 0 /\ owner_alive s c k \/
+              k_mapped k = false /\ todoN (isD c) s = 1 /\ k_ccb k = CbServer /\ s_srv s = false /\ first_life c (loop_todo s (k_loop k)) = Some LD \/
+              k_mapped k = false /\ todoN (isD c) s = 0 /\ k_ccb k = CbDetail /\ (1 <= k_urefs k \/ 1 <= todoN (isF c) s))
+        by (destruct Ecl as [E|E]; rewrite E in Hph; apply Hph).
+      destruct Hb4 as [(B1 & _ & B3)|[(_ & _ & _ & _ & B)|(B1 & _ & B3 & _)]]; [left; auto| |right; auto].
+      exfalso. rewrite Hl, (loop_todo_pop s l v t rest Hv Hb) in B. cbn [first_life] in B. unfold life_of, t in B. cbn in B.
+      rewrite Nat.eqb_refl in B. discriminate.
+    + cbn [app]. apply finish_ok, HI'.
+  - (* the connection was closed in the meantime: the functor does nothing *)
+    apply closable_false_k in Ecl. destruct Ecl as [E|E]; [congruence|].
+    apply finish_ok. apply (invx_close s1 s1 c HX (proj1 HX)).
+    + intros c1 Hn. split; [reflexivity|apply same_for_refl].
+    + intros k2 Hk2. change (getc s1 c) with (getc s c) in Hk2. rewrite Hg in Hk2. injection Hk2 as <-.
+      apply cinv_build; auto.
+      * apply (ci_idle s c k HCk Ha).
+      * apply (ci_cnt s c k HCk Ha).
+      * apply (ci_poll s c k HCk Ha).
+      * unfold phase in *. rewrite E in *. rewrite PE', PR', PD'. exact Hph.
+      * lia.
+Qed.
+
+Lemma interest_up s c k : CInv s c k -> k_alive k = true -> k_wr k = true \/ k_rd k = true -> up_k k.
+Proof.
+  intros HC Ha Hi. destruct (k_st k) eqn:E; unfold up_k; auto.
+  - destruct (ci_idle s c k HC Ha) as [H1 H2]; [unfold up_k; rewrite E; intros [?|?]; discriminate|]. destruct Hi; congruence.
+  - destruct (ci_idle s c k HC Ha) as [H1 H2]; [unfold up_k; rewrite E; intros [?|?]; discriminate|]. destruct Hi; congruence.
+Qed.
+
+Lemma phase_up_cases s c k : phase s c k -> up_k k ->
+  k_added k = true /\ todoN (isE c) s = 0 /\ todoN (isR c) s = 0 /\
+  ((k_mapped k = true /\ todoN (isD c) s = 0 /\ owner_alive s c k) \/
+   (k_mapped k = false /\ todoN (isD c) s = 1 /\ k_ccb k = CbServer /\ s_srv s = false /\
+    first_life c (loop_todo s (k_loop k)) = Some LD) \/
+   (k_mapped k = false /\ todoN (isD c) s = 0 /\ k_ccb k = CbDetail /\ (1 <= k_urefs k \/ 1 <= todoN (isF c) s))).
+Proof. unfold phase. intros H [E|E]; rewrite E in H; exact H. Qed.
+
+Lemma ev_close s c k : Inv0 s -> getc s c = Some k -> k_alive k = true -> up_k k ->
+  (match k_ccb k with CbServer => negb (s_srv s) | CbClient => negb (s_cli s) | CbDetail => false end) = false ->
+  match finish (handle_close s (k_loop k) c) (k_loop k) with Ok (s', _) => Inv s' | Rejected => True | Fault => False end.
+Proof.
+  intros HI Hg Ha Hup Horph. pose proof (proj2 HI c k Hg) as HCk.
+  destruct (phase_up_cases s c k (ci_phase s c k HCk Ha) Hup) as (Hadd & HE & HR & Hcase).
+  destruct (ci_loop s c k HCk) as [L1 L2]. destruct (ci_dtor s c k HCk) as [D1 D2]. rewrite Ha in D1.
+  assert (HD : todoN (isD c) s = 0 /\ ((k_mapped k = true /\ owner_alive s c k) \/ (k_mapped k = false /\ k_ccb k = CbDetail))).
+  { destruct Hcase as [(B1 & B2 & B3)|[(B1 & B2 & B3 & B4 & _)|(B1 & B2 & B3 & _)]]; auto.
+    exfalso. rewrite B3, B4 in Horph. discriminate. }
+  destruct HD as [HD Hown].
+  destruct (handle_close_inv s (k_loop k) c k (invx_of_inv0 s c HI) Hg Ha Hup eq_refl L1 L2 Hadd (ci_cnt s c k HCk Ha)) as (s' & -> & HI');
+    auto; try lia.
+  apply finish_ok, HI'.
+Qed.
+
+Lemma step_Ev s c e : Inv s -> step_ok s (Ev c e).
+Proof.
+  intros [HI HH]. unfold step_ok, step. destruct (getc s c) as [k|] eqn:Hg; [|exact I].
+  unfold ev_step. rewrite Hg.
+  destruct (k_alive k && k_added k && k_inset k && loop_idle s (k_loop k)) eqn:Epre; [|exact I]. cbn [negb].
+  apply andb_prop in Epre as [Epre _]. apply andb_prop in Epre as [Epre Hins]. apply andb_prop in Epre as [Ha Hadd].
+  pose proof (proj2 HI c k Hg) as HCk.
+  set (orphan := match k_ccb k with CbServer => negb (s_srv s) | CbClient => negb (s_cli s) | CbDetail => false end).
+  destruct e.
+  - destruct (k_rd k); [|exact I]. apply finish_ok, HI.
+  - destruct (k_rd k) eqn:Erd; [|exact I]. cbn [andb]. destruct orphan eqn:Eo; [exact I|].
+    apply (ev_close s c k HI Hg Ha); [|exact Eo]. apply (interest_up s c k HCk Ha). right. exact Erd.
+  - destruct (k_rd k); [|exact I]. apply finish_ok, HI.
+  - cbn [andb]. destruct ((s_readd s && k_none k) || orphan) eqn:Eg; [exact I|].
+    apply orb_false_iff in Eg as [Eg Eo].
+    apply (ev_close s c k HI Hg Ha); [|exact Eo]. apply (interest_up s c k HCk Ha).
+    unfold k_inset in Hins. destruct (k_pidx k) eqn:Ep; try discriminate.
+    destruct (k_none k) eqn:En.
+    + rewrite (proj2 (ci_poll s c k HCk Ha) Ep En) in Eg. discriminate.
+    + unfold k_none in En. apply negb_false_iff, orb_prop in En. exact En.
+  - apply finish_ok, HI.
+  - destruct (k_wr k) eqn:Ewr; [|exact I]. destruct drained; [|apply finish_ok, HI].
+    assert (Hup : up_k k) by (apply (interest_up s c k HCk Ha); left; exact Ewr).
+    pose proof (chan_update_fields (s_readd s) k false (k_rd k)) as F. cbv zeta in F.
+    destruct F as (F1 & F2 & F3 & F4 & F5 & F6 & F7 & F8 & F9 & F10 & F11 & F12 & F13 & F14 & F15 & F16 & F17).
+    set (k1 := chan_update (s_readd s) k false (k_rd k)) in *.
+    set (k2 := if cstate_eqb (k_st k) Disconnecting then shutdown_in_loop k1 else k1).
+    assert (Hcore : same_core k1 k2).
+    { unfold k2, shutdown_in_loop, same_core. destruct (cstate_eqb (k_st k) Disconnecting); [|repeat split].
+      destruct (k_wr k1) eqn:Ew1; cbn; repeat split; auto. }
+    destruct Hcore as (E1 & E2 & E3 & E4 & E5 & E6 & E7 & E8 & E9 & E10 & E11 & E12 & E13 & E14).
+    assert (HI1 : Inv0 (put s c k2)).
+    { apply (put_local s c k k2 HI Hg Ha); try congruence.
+      - left. congruence.
+      - intros _ _ _ Hu. left. lia.
+      - intros Hx. exfalso. apply Hx. unfold up_k in *. rewrite E1, F1. exact Hup.
+      - pose proof (ci_cnt s c k HCk Ha) as Hc. unfold counters_ok in *. rewrite E1, E11, E12, F1, F13, F14. exact Hc.
+      - pose proof (chan_update_poller (s_readd s) k false (k_rd k)) as P. fold k1 in P. unfold poller_ok, k_none in *.
+        rewrite E4, E5, E2, E3. exact P. }
+    cbn [ret]. apply finish_ok. destruct wc; [|exact HI1].
+    apply enq_plain; [exact HI1|reflexivity| |].
+    + split; [reflexivity|]. split; [intros ? Hx; discriminate Hx|]. exists k2. rewrite getc_put_eq by (eapply getc_lt, Hg). split; [reflexivity|]. split; [congruence|].
+      intros _. rewrite E1, F1. destruct Hup; congruence.
+    + intros _. exists k2. rewrite getc_put_eq by (eapply getc_lt, Hg). split; [reflexivity|congruence].
+Qed.
+
+Lemma phase_cnt_st s c k : phase s c k -> 1 <= todoN (isR c) s ->
+  k_st k = Disconnected /\ k_added k = true /\ k_mapped k = true /\ todoN (isR c) s = 1 /\ todoN (isD c) s = 0 /\
+  todoN (isE c) s = 0 /\ k_ccb k = CbServer /\ s_srv s = true.
+Proof.
+  unfold phase. intros H HR. destruct (k_st k).
+  - destruct H as (_ & _ & _ & Hx & _). lia.
+  - destruct H as (_ & _ & Hx & _). lia.
+  - destruct H as (_ & _ & Hx & _). lia.
+  - destruct H as (HE & [(A1 & A2 & A3 & A4 & A5 & A6)|[(_ & _ & Hx & _)|(_ & _ & Hx & _)]]); [auto 10|lia|lia].
+Qed.
+
+Lemma run_remove s l v c rest : Inv s -> getl s l = Some v -> q_batch v = TRemove c :: rest ->
+  match finish (run_task (set_loop s l (popped v (TRemove c) rest)) l (TRemove c) true true) l with
+  | Ok (s', _) => Inv s' | Rejected => True | Fault => False end.
+Proof.
+  intros [[G HC] HH] Hv Hb. set (t := TRemove c). set (s1 := set_loop s l (popped v t rest)).
+  assert (Hin : In t (q_all v)) by (unfold q_all; rewrite Hb; apply in_or_app; right; left; reflexivity).
+  destruct (gi_placed s G l v t Hv Hin) as [_ [_ (Hl0 & Hlt)]].
+  destruct (getc s c) as [k|] eqn:Hg; [|unfold getc in Hg; apply nth_error_None in Hg; lia].
+  assert (Hh : holds c t = true) by (unfold holds; cbn; rewrite Nat.eqb_refl; reflexivity).
+  pose proof (strong_alive s l v t c k (conj G HC) Hv Hin Hh Hg) as Ha.
+  pose proof (HC c k Hg) as HCk.
+  assert (HR1 : 1 <= todoN (isR c) s).
+  { apply (todoN_in (isR c) s l v t Hv); [rewrite (popped_todo v t rest Hb); left; reflexivity|cbn; apply Nat.eqb_refl]. }
+  destruct (phase_cnt_st s c k (ci_phase s c k HCk Ha) HR1) as (Hst & Hadd & Hm & HR & HD & HE & Hcb & Hsrv).
+  assert (Hab : about c t = true) by (cbn; apply Nat.eqb_refl).
+  pose proof (invx_pop s l v t rest c (conj G HC) Hv Hb Hab) as HX. fold s1 in HX.
+  assert (Et : isE c t = false /\ isR c t = true /\ isD c t = false) by (unfold t; cbn; rewrite Nat.eqb_refl; auto).
+  destruct Et as (Et1 & Et2 & Et3).
+  pose proof (todoN_pop (isE c) s l v t rest Hv Hb) as PE. pose proof (todoN_pop (isR c) s l v t rest Hv Hb) as PR.
+  pose proof (todoN_pop (isD c) s l v t rest Hv Hb) as PD. rewrite Et1 in PE. rewrite Et2 in PR. rewrite Et3 in PD. fold s1 in PE, PR, PD.
+  destruct (ci_loop s c k HCk) as [L1 L2]. destruct (ci_dtor s c k HCk) as [D1 D2]. rewrite Ha in D1.
+  unfold run_task, t, remove_in_loop. change (s_srv s1) with (s_srv s). change (getc s1 c) with (getc s c).
+  rewrite Hsrv, Hl0, Hg, Hm. cbn [negb Nat.eqb ret].
+  apply finish_ok. set (k2 := set_own k (k_ccb k) false (k_urefs k) (k_delayed k)). set (t2 := TDestroy c).
+  set (s2 := enq (put s1 c k2) (k_loop k) t2).
+  destruct (getl_valid s (k_loop k) G L1) as [vk Hvk].
+  assert (Hncli : s_cliconn s <> Some c).
+  { intros Hc. destruct (gi_cli s G c Hc) as (_ & k0 & Hk0 & _ & _ & Hx & _). rewrite Hg in Hk0. injection Hk0 as <-. congruence. }
+  assert (Hg1 : getc s1 c = Some k) by exact Hg.
+  assert (Hlt1 : c < length (s_conns s1)) by exact Hlt.
+  assert (Hvk1 : exists vk1, getl (put s1 c k2) (k_loop k) = Some vk1).
+  { apply (getl_valid (put s1 c k2) (k_loop k)); [|exact L1]. apply (ginv_put_nc s1 c k k2 (proj1 HX) Hg1 eq_refl eq_refl (fun H => H) Hncli). }
+  destruct Hvk1 as [vk1 Hvk1].
+  apply (invx_close s1 s2 c HX).
+  - apply ginv_enq.
+    + apply (ginv_put_nc s1 c k k2 (proj1 HX) Hg1 eq_refl eq_refl (fun H => H) Hncli).
+    + split; [reflexivity|]. split; [intros ? Hx; discriminate Hx|]. exists k2. rewrite getc_put_eq by exact Hlt1. split; [reflexivity|]. split; [reflexivity|discriminate].
+  - intros c1 Hn. split.
+    + unfold s2. rewrite getc_enq, getc_put_neq by auto. reflexivity.
+    + apply same_for_put_enq; [exact Hn|]. cbn. apply Nat.eqb_refl.
+  - intros k3 Hk3. unfold s2 in Hk3. rewrite getc_enq, getc_put_eq in Hk3 by exact Hlt1. injection Hk3 as <-.
+    destruct (enq_fields (put s1 c k2) (k_loop k) t2) as (N1 & N2 & N3 & N4 & N5 & N6).
+    apply cinv_build; cbn [k2 set_own k_alive k_loop k_ccb k_wr k_rd k_st k_dtors k_closes]; auto.
+    + unfold s2. rewrite N1. exact L1.
+    + intros _. apply (ci_idle s c k HCk Ha). unfold up_k. rewrite Hst. intros [?|?]; discriminate.
+    + apply (ci_cnt s c k HCk Ha).
+    + unfold s2. rewrite N2. apply (ci_poll s c k HCk Ha).
+    + unfold phase. cbn [k2 set_own k_st k_added k_mapped k_ccb]. rewrite Hst. unfold s2.
+      rewrite (todoN_enq (isE c) _ _ t2 vk1 Hvk1), (todoN_enq (isR c) _ _ t2 vk1 Hvk1), (todoN_enq (isD c) _ _ t2 vk1 Hvk1).
+      unfold t2. cbn [isE isR isD]. rewrite Nat.eqb_refl.
+      change (todoN (isE c) (put s1 c k2)) with (todoN (isE c) s1). change (todoN (isR c) (put s1 c k2)) with (todoN (isR c) s1).
+      change (todoN (isD c) (put s1 c k2)) with (todoN (isD c) s1).
+      split; [lia|]. right. left. repeat split; auto; lia.
+    + lia.
+Qed.
+
+Lemma run_destroy s l v c rest : Inv s -> getl s l = Some v -> q_batch v = TDestroy c :: rest ->
+  match finish (run_task (set_loop s l (popped v (TDestroy c) rest)) l (TDestroy c) true true) l with
+  | Ok (s', _) => Inv s' | Rejected => True | Fault => False end.
+Proof.
+  intros [[G HC] HH] Hv Hb. set (t := TDestroy c). set (s1 := set_loop s l (popped v t rest)).
+  assert (Hin : In t (q_all v)) by (unfold q_all; rewrite Hb; apply in_or_app; right; left; reflexivity).
+  destruct (gi_placed s G l v t Hv Hin) as [_ [Hne (k & Hg & Hl & _)]]. cbn [task_conn t] in Hg.
+  assert (Hh : holds c t = true) by (unfold holds; cbn; rewrite Nat.eqb_refl; reflexivity).
+  pose proof (strong_alive s l v t c k (conj G HC) Hv Hin Hh Hg) as Ha.
+  pose proof (HC c k Hg) as HCk. pose proof (ci_phase s c k HCk Ha) as Hph.
+  assert (HD1 : 1 <= todoN (isD c) s).
+  { apply (todoN_in (isD c) s l v t Hv); [rewrite (popped_todo v t rest Hb); left; reflexivity|cbn; apply Nat.eqb_refl]. }
+  assert (Hab : about c t = true) by (cbn; apply Nat.eqb_refl).
+  pose proof (invx_pop s l v t rest c (conj G HC) Hv Hb Hab) as HX. fold s1 in HX.
+  assert (Et : isE c t = false /\ isR c t = false /\ isD c t = true) by (unfold t; cbn; rewrite Nat.eqb_refl; auto).
+  destruct Et as (Et1 & Et2 & Et3).
+  pose proof (todoN_pop (isE c) s l v t rest Hv Hb) as PE. pose proof (todoN_pop (isR c) s l v t rest Hv Hb) as PR.
+  pose proof (todoN_pop (isD c) s l v t rest Hv Hb) as PD. rewrite Et1 in PE. rewrite Et2 in PR. rewrite Et3 in PD. fold s1 in PE, PR, PD.
+  destruct (ci_loop s c k HCk) as [L1 L2]. destruct (ci_dtor s c k HCk) as [D1 D2]. rewrite Ha in D1.
+  (* the head of the loop's todo list is this TDestroy: the connection is not kConnecting *)
+  assert (Hfirst : first_life c (loop_todo s (k_loop k)) = Some LD).
+  { rewrite Hl, (loop_todo_pop s l v t rest Hv Hb). cbn [first_life]. unfold life_of, t. cbn. rewrite Nat.eqb_refl. reflexivity. }
+  assert (Hcases : (up_k k /\ k_added k = true /\ k_mapped k = false /\ todoN (isD c) s = 1 /\ todoN (isR c) s = 0 /\ todoN (isE c) s = 0) \/
+                   (k_st k = Disconnected /\ k_added k = true /\ k_mapped k = false /\ todoN (isD c) s = 1 /\ todoN (isR c) s = 0 /\ todoN (isE c) s = 0)).
+  { unfold phase in Hph. destruct (k_st k) eqn:Est.
+    - destruct Hph as (_ & _ & _ & _ & _ & Hx & _). congruence.
+    - left. destruct Hph as (A1 & A2 & A3 & [(_ & Hx & _)|[(B1 & B2 & _)|(_ & Hx & _)]]); try lia. split; [left; exact Est|auto 10].
+    - left. destruct Hph as (A1 & A2 & A3 & [(_ & Hx & _)|[(B1 & B2 & _)|(_ & Hx & _)]]); try lia. split; [right; exact Est|auto 10].
+    - right. destruct Hph as (A1 & [(_ & _ & _ & Hx & _)|[(B1 & B2 & B3 & B4)|(_ & _ & _ & Hx)]]); try lia. auto 10. }
+  assert (Hncli : s_cliconn s <> Some c).
+  { intros Hc. destruct (gi_cli s G c Hc) as (_ & k0 & Hk0 & _ & Hx & _). rewrite Hg in Hk0. injection Hk0 as <-.
+    destruct Hcases as [(_ & _ & Hy & _)|(_ & _ & Hy & _)]; congruence. }
+  assert (Hg1 : getc s1 c = Some k) by exact Hg.
+  assert (Hlt : c < length (s_conns s1)) by (eapply getc_lt, Hg1).
+  unfold run_task, t, connect_destroyed. rewrite Hg1, Ha, Hl, Nat.eqb_refl. cbn [negb].
+  (* the record after connectDestroyed *)
+  assert (Hres : exists k2 o, (let '(k1, o) := if k_closable k
+                   then (chan_update (s_readd s1) (set_life k Disconnected (k_ups k) (S (k_downs k))) false false, [ODown l c])
+                   else (k, []) in
+                 match chan_remove k1 with Ok k2 => emit (put s1 c k2) o | _ => Fault end) = Ok (put s1 c k2, o) /\
+            k_st k2 = Disconnected /\ k_wr k2 = false /\ k_rd k2 = false /\ k_added k2 = false /\ k_pidx k2 = PNew /\
+            k_loop k2 = k_loop k /\ k_alive k2 = true /\ k_ccb k2 = k_ccb k /\ k_mapped k2 = false /\
+            k_ups k2 = 1 /\ k_downs k2 = 1 /\ k_dtors k2 = 0 /\ k_closes k2 = 0).
+  { destruct Hcases as [(Hup & Hadd & Hm & _)|(Hst & Hadd & Hm & _)].
+    - rewrite (proj2 (closable_up_k k) Hup).
+      pose proof (chan_update_fields (s_readd s1) (set_life k Disconnected (k_ups k) (S (k_downs k))) false false) as F. cbv zeta in F.
+      set (k1 := chan_update (s_readd s1) (set_life k Disconnected (k_ups k) (S (k_downs k))) false false) in *.
+      cbn [set_life k_st k_rflag k_loop k_alive k_ccb k_mapped k_urefs k_delayed k_fin k_ups k_downs k_dtors k_closes] in F.
+      destruct F as (F1 & F2 & F3 & F4 & F5 & F6 & F7 & F8 & F9 & F10 & F11 & F12 & F13 & F14 & F15 & F16 & F17).
+      unfold chan_remove, k_none. rewrite F2, F3. cbn [orb negb].
+      destruct (pidx_eqb (k_pidx k1) PNew) eqn:Ep; [destruct (k_pidx k1); try discriminate; congruence|].
+      eexists _, _. split; [reflexivity|]. cbn.
+      pose proof (ci_cnt s c k HCk Ha) as Hc. unfold counters_ok in Hc.
+      repeat split; try congruence; destruct Hup as [E|E]; rewrite E in Hc; lia.
+    - assert (Ecl : k_closable k = false) by (apply closable_false_k; right; exact Hst). rewrite Ecl.
+      destruct (ci_idle s c k HCk Ha) as [Hw Hr]; [unfold up_k; rewrite Hst; intros [?|?]; discriminate|].
+      unfold chan_remove, k_none. rewrite Hw, Hr. cbn [orb negb].
+      destruct (pidx_eqb (k_pidx k) PNew) eqn:Ep.
+      + exfalso. destruct (k_pidx k) eqn:Epi; try discriminate. pose proof (proj2 (proj1 (ci_poll s c k HCk Ha)) Epi). congruence.
+      + eexists _, _. split; [reflexivity|]. cbn.
+        pose proof (ci_cnt s c k HCk Ha) as Hc. unfold counters_ok in Hc. rewrite Hst in Hc.
+        repeat split; try congruence; lia. }
+  destruct Hres as (k2 & o & -> & E1 & E2 & E3 & E4 & E5 & E6 & E7 & E8 & E9 & E10 & E11 & E12 & E13).
+  apply finish_ok. apply (invx_close s1 (put s1 c k2) c HX).
+  - apply (ginv_put_nc s1 c k k2 (proj1 HX) Hg1 E6); [congruence|intros _; congruence|exact Hncli].
+  - intros c1 Hn. split; [apply getc_put_neq; auto|apply same_for_put].
+  - intros k3 Hk3. rewrite getc_put_eq in Hk3 by exact Hlt. injection Hk3 as <-.
+    apply cinv_build; auto.
+    + change (s_nio (put s1 c k2)) with (s_nio s). congruence.
+    + intros Hx. rewrite E6. apply L2. congruence.
+    + unfold counters_ok. rewrite E1. auto.
+    + unfold poller_ok, k_none. rewrite E4, E5, E2, E3. split; [tauto|discriminate].
+    + unfold phase. rewrite E1, E4, E9.
+      change (todoN (isE c) (put s1 c k2)) with (todoN (isE c) s1). change (todoN (isR c) (put s1 c k2)) with (todoN (isR c) s1).
+      change (todoN (isD c) (put s1 c k2)) with (todoN (isD c) s1).
+      destruct Hcases as [(_ & _ & _ & A & B & C)|(_ & _ & _ & A & B & C)]; (split; [lia|]; right; right; repeat split; auto; lia).
+Qed.
+
+Lemma step_Run s l full wc : Inv s -> step_ok s (Run l full wc).
+Proof.
+  intros HI. unfold step_ok, step. destruct (getl s l) as [v|] eqn:Hv; [|exact I].
+  destruct (q_batch v) as [|t rest] eqn:Hb; [exact I|]. fold (popped v t rest). fold (set_loop s l (popped v t rest)).
+  destruct t.
+  - (* TEstablish *) pose proof (run_establish s l v c rest HI Hv Hb) as H. unfold run_task in *. exact H.
+  - pose proof (run_remove s l v c rest HI Hv Hb) as H. unfold run_task in *. exact H.
+  - pose proof (run_destroy s l v c rest HI Hv Hb) as H. unfold run_task in *. exact H.
+  - pose proof (run_forceclose s l v c rest HI Hv Hb) as H. unfold run_task in *. exact H.
+  - (* TUserCb *) destruct HI as [HI HH]. cbn [run_task ret]. apply finish_ok. apply (pop_plain_inv s l v _ rest HI Hv Hb eq_refl).
+  - (* TShutdown *)
+    destruct HI as [HI HH]. set (t := TShutdown c pin) in *. set (s1 := set_loop s l (popped v t rest)).
+    assert (Hin : In t (q_all v)) by (unfold q_all; rewrite Hb; apply in_or_app; right; left; reflexivity).
+    destruct (gi_placed s (proj1 HI) l v t Hv Hin) as [Hpin [_ (k & Hg & Hl & Hnc)]]. cbn [raw_pinned t] in Hpin. cbn [task_conn t] in Hg. subst pin. specialize (Hnc eq_refl).
+    assert (Hh : holds c t = true) by (unfold holds; cbn; rewrite Nat.eqb_refl; reflexivity).
+    pose proof (strong_alive s l v t c k HI Hv Hin Hh Hg) as Ha.
+    pose proof (pop_plain_inv s l v t rest HI Hv Hb eq_refl) as HI1. pose proof (pop_held s l v t rest HH Hv Hb) as HH1. fold s1 in HI1, HH1.
+    unfold run_task, t. cbv zeta. change (getc s1 c) with (getc s c). rewrite Hg, Ha. cbn [ret]. apply finish_ok.
+    assert (Hcore : same_core k (shutdown_in_loop k)).
+    { unfold shutdown_in_loop, same_core. destruct (k_wr k) eqn:Ew; cbn; repeat split; auto. }
+    apply (put_core s1 c k _ HI1 HH1 Hg Hcore).
+  - (* TStartRead *)
+    destruct HI as [HI HH]. set (t := TStartRead c pin) in *. set (s1 := set_loop s l (popped v t rest)).
+    assert (Hin : In t (q_all v)) by (unfold q_all; rewrite Hb; apply in_or_app; right; left; reflexivity).
+    destruct (gi_placed s (proj1 HI) l v t Hv Hin) as [Hpin [_ (k & Hg & Hl & Hnc)]]. cbn [raw_pinned t] in Hpin. cbn [task_conn t] in Hg. subst pin. specialize (Hnc eq_refl).
+    assert (Hh : holds c t = true) by (unfold holds; cbn; rewrite Nat.eqb_refl; reflexivity).
+    pose proof (strong_alive s l v t c k HI Hv Hin Hh Hg) as Ha.
+    pose proof (pop_plain_inv s l v t rest HI Hv Hb eq_refl) as HI1. pose proof (pop_held s l v t rest HH Hv Hb) as HH1. fold s1 in HI1, HH1.
+    unfold run_task, t. cbv zeta. change (getc s1 c) with (getc s c). rewrite Hg, Ha. cbn [ret]. apply finish_ok.
+    unfold start_read. change (getc s1 c) with (getc s c). rewrite Hg.
+    destruct (negb (cstate_eqb (k_st k) Disconnected) && (negb (k_rflag k) || negb (k_rd k))) eqn:E; [|exact HI1].
+    apply andb_prop in E as [E _]. apply negb_true_iff, cs_eqb_false in E.
+    assert (Hup : up_k k) by (unfold up_k; destruct (k_st k); intuition congruence).
+    destruct (phase_up_cases s1 c k (ci_phase s1 c k (proj2 HI1 c k Hg) Ha) Hup) as (Hadd & _).
+    apply (read_toggle_inv s1 c k true true HI1 HH1 Hg Ha Hup Hadd).
+  - (* TStopRead *)
+    destruct HI as [HI HH]. set (t := TStopRead c pin) in *. set (s1 := set_loop s l (popped v t rest)).
+    assert (Hin : In t (q_all v)) by (unfold q_all; rewrite Hb; apply in_or_app; right; left; reflexivity).
+    destruct (gi_placed s (proj1 HI) l v t Hv Hin) as [Hpin [_ (k & Hg & Hl & Hnc)]]. cbn [raw_pinned t] in Hpin. cbn [task_conn t] in Hg. subst pin. specialize (Hnc eq_refl).
+    assert (Hh : holds c t = true) by (unfold holds; cbn; rewrite Nat.eqb_refl; reflexivity).
+    pose proof (strong_alive s l v t c k HI Hv Hin Hh Hg) as Ha.
+    pose proof (pop_plain_inv s l v t rest HI Hv Hb eq_refl) as HI1. pose proof (pop_held s l v t rest HH Hv Hb) as HH1. fold s1 in HI1, HH1.
+    unfold run_task, t. cbv zeta. change (getc s1 c) with (getc s c). rewrite Hg, Ha. cbn [ret]. apply finish_ok.
+    unfold stop_read. change (getc s1 c) with (getc s c). rewrite Hg.
+    destruct (negb (cstate_eqb (k_st k) Disconnected) && (k_rflag k || k_rd k)) eqn:E; [|exact HI1].
+    apply andb_prop in E as [E _]. apply negb_true_iff, cs_eqb_false in E.
+    assert (Hup : up_k k) by (unfold up_k; destruct (k_st k); intuition congruence).
+    destruct (phase_up_cases s1 c k (ci_phase s1 c k (proj2 HI1 c k Hg) Ha) Hup) as (Hadd & _).
+    apply (read_toggle_inv s1 c k false false HI1 HH1 Hg Ha Hup Hadd).
+  - (* TSend *)
+    destruct HI as [HI HH]. set (t := TSend c pin) in *. set (s1 := set_loop s l (popped v t rest)).
+    assert (Hin : In t (q_all v)) by (unfold q_all; rewrite Hb; apply in_or_app; right; left; reflexivity).
+    destruct (gi_placed s (proj1 HI) l v t Hv Hin) as [Hpin [_ (k & Hg & Hl & Hnc)]]. cbn [raw_pinned t] in Hpin. cbn [task_conn t] in Hg. subst pin. specialize (Hnc eq_refl).
+    assert (Hh : holds c t = true) by (unfold holds; cbn; rewrite Nat.eqb_refl; reflexivity).
+    pose proof (strong_alive s l v t c k HI Hv Hin Hh Hg) as Ha.
+    pose proof (pop_plain_inv s l v t rest HI Hv Hb eq_refl) as HI1. pose proof (pop_held s l v t rest HH Hv Hb) as HH1. fold s1 in HI1, HH1.
+    unfold run_task, t. cbv zeta. change (getc s1 c) with (getc s c). rewrite Hg, Ha. cbn [ret]. apply finish_ok.
+    apply (send_in_loop_inv s1 c full wc HI1 HH1). intros k0 Hk0. change (getc s1 c) with (getc s c) in Hk0. rewrite Hg in Hk0.
+    injection Hk0 as <-. auto.
+  - (* TAddTimer *)
+    destruct HI as [HI HH]. set (t := TAddTimer c) in *. set (s1 := set_loop s l (popped v t rest)).
+    assert (Hin : In t (q_all v)) by (unfold q_all; rewrite Hb; apply in_or_app; right; left; reflexivity).
+    destruct (gi_placed s (proj1 HI) l v t Hv Hin) as [_ [_ (k & Hg & Hl & Hnc)]]. cbn [task_conn t] in Hg.
+    pose proof (pop_plain_inv s l v t rest HI Hv Hb eq_refl) as HI1. pose proof (pop_held s l v t rest HH Hv Hb) as HH1. fold s1 in HI1, HH1.
+    unfold run_task, t. cbv zeta. change (getc s1 c) with (getc s c). rewrite Hg. cbn [ret]. apply finish_ok.
+    apply (put_core s1 c k _ HI1 HH1 Hg). unfold same_core. cbn. repeat split.
+  - (* TOther *) destruct HI as [HI HH]. cbn [run_task ret]. apply finish_ok. apply (pop_plain_inv s l v _ rest HI Hv Hb eq_refl).
+Qed.
+
+(* ---- creating a connection -------------------------------------------------------------------------- *)
+Definition add_conn (s : sys) (k : lc) (rr : nat) (cc : option nat) : sys :=
+  mkSys (s_nio s) (s_readd s) (s_conns s ++ [k]) (s_loops s) rr (s_srv s) (s_cli s) cc (s_calls s).
+
+Lemma no_task_about_new s p : GInv s ->
+  (forall t, p t = true -> t <> TOther /\ task_conn t = length (s_conns s)) ->
+  todoN p s = 0 /\ allN p s = 0.
+Proof.
+  intros G Hp.
+  assert (Hz : forall l v, getl s l = Some v -> cnt p (q_all v) = 0).
+  { intros l v Hv. apply cnt_zero_notin. intros t Hin. destruct (p t) eqn:E; [|reflexivity]. exfalso.
+    destruct (Hp t E) as [Hno Hc]. destruct (gi_placed s G l v t Hv Hin) as [_ [_ Hpl]].
+    destruct t; try congruence; try (destruct Hpl as (k1 & Hk1 & _); apply getc_lt in Hk1; cbn in *; lia).
+    destruct Hpl as [_ Hlt]. cbn in Hc. lia. }
+  split.
+  - unfold todoN. apply sumq_zero. intros v Hin. apply In_nth_error in Hin as [l Hl].
+    pose proof (Hz l v Hl) as E. rewrite q_all_todo, cnt_app in E. lia.
+  - unfold allN. apply sumq_zero. intros v Hin. apply In_nth_error in Hin as [l Hl]. apply (Hz l v Hl).
+Qed.
+
+Lemma isX_new c t : (isE c t = true \/ isR c t = true \/ isD c t = true \/ isF c t = true \/ holds c t = true) ->
+  t <> TOther /\ task_conn t = c.
+Proof.
+  unfold holds. intros H.
+  assert (Hc : t <> TOther /\ (task_conn t =? c) = true).
+  { destruct t; cbn [isE isR isD isF task_conn task_strong] in *;
+      repeat (destruct H as [H|H]); try discriminate; try (apply andb_prop in H as [H H']; try discriminate H');
+      (split; [discriminate|exact H]). }
+  destruct Hc as [H1 H2]. split; [exact H1|apply Nat.eqb_eq, H2].
+Qed.
+
+Lemma getc_add_old s k rr cc c : c < length (s_conns s) -> getc (add_conn s k rr cc) c = getc s c.
+Proof. intros H. unfold getc, add_conn. cbn. apply nth_app_old, H. Qed.
+
+Lemma getc_add_new s k rr cc : getc (add_conn s k rr cc) (length (s_conns s)) = Some k.
+Proof. unfold getc, add_conn. cbn. apply nth_app_new. Qed.
+
+Lemma conns_ext_add s k rr cc : conns_ext s (add_conn s k rr cc).
+Proof.
+  split; [unfold add_conn; cbn; rewrite app_length; cbn; lia|].
+  intros c k1 H. exists k1. rewrite getc_add_old by (eapply getc_lt, H). auto.
+Qed.
+
+(* the new connection is the only thing that differs; [cc] names it or is the old value *)
+Lemma add_conn_frame s k rr cc c1 : c1 < length (s_conns s) ->
+  (cc = s_cliconn s \/ (s_cliconn s = None /\ cc = Some (length (s_conns s)))) ->
+  same_for s (add_conn s k rr cc) c1.
+Proof.
+  intros Hlt Hcc. constructor; try reflexivity. cbn. destruct Hcc as [-> |[E ->]]; [tauto|].
+  rewrite E. split; intros [_ Hx]; [injection Hx as Hx; lia|discriminate].
+Qed.
+
+Lemma add_conn_ginv s k rr cc : GInv s -> (s_nio s = 0 \/ rr < s_nio s) ->
+  (cc = s_cliconn s \/ (s_cliconn s = None /\ cc = Some (length (s_conns s)) /\ s_cli s = true /\
+                       k_alive k = true /\ k_mapped k = true /\ k_ccb k = CbClient /\ up_k k)) ->
+  GInv (add_conn s k rr cc).
+Proof.
+  intros [G1 Gr G2 [G3 G3'] G4] Hrr Hcc. pose proof (conns_ext_add s k rr cc) as Hext. constructor.
+  - exact G1.
+  - exact Hrr.
+  - intros l v t Hv Hin. apply (placed_mono s _ l t Hext), (G2 l v t Hv Hin).
+  - split; [exact G3|]. intros a Hin. destruct (G3' a Hin) as (k1 & Hk1 & H1). exists k1.
+    rewrite getc_add_old by (eapply getc_lt, Hk1). auto.
+  - intros c Hc. cbn [add_conn s_cliconn s_cli] in *. destruct Hcc as [-> |(E & -> & Hcli & H1 & H2 & H3 & H4)].
+    + destruct (G4 c Hc) as (Hs & k1 & Hk1 & Hr). split; [exact Hs|]. exists k1. rewrite getc_add_old by (eapply getc_lt, Hk1). auto.
+    + injection Hc as <-. split; [exact Hcli|]. exists k. rewrite getc_add_new. auto.
+Qed.
+
+Lemma step_Accept s : Inv s -> step_ok s Accept.
+Proof.
+  intros [[G HC] HH]. unfold step_ok, step, accept. destruct (s_srv s) eqn:Hsrv; [|exact I]. cbn [negb].
+  set (io := if s_nio s =? 0 then 0 else S (s_rr s)).
+  set (rr := if s_nio s =? 0 then 0 else if S (s_rr s) <? s_nio s then S (s_rr s) else 0).
+  set (c := length (s_conns s)). set (k0 := fresh io CbServer).
+  fold (add_conn s k0 rr (s_cliconn s)). set (s1 := add_conn s k0 rr (s_cliconn s)).
+  assert (Hio : io <= s_nio s).
+  { unfold io. destruct (s_nio s =? 0) eqn:E; [lia|]. apply Nat.eqb_neq in E. destruct (gi_rr s G); lia. }
+  assert (Hrr : s_nio s = 0 \/ rr < s_nio s).
+  { unfold rr. destruct (s_nio s =? 0) eqn:E; [left; apply Nat.eqb_eq, E|]. right. apply Nat.eqb_neq in E.
+    destruct (S (s_rr s) <? s_nio s) eqn:E2; [apply Nat.ltb_lt, E2|lia]. }
+  pose proof (add_conn_ginv s k0 rr (s_cliconn s) G Hrr (or_introl eq_refl)) as G1. fold s1 in G1.
+  destruct (no_task_about_new s (isE c) G (fun t H => isX_new c t (or_introl H))) as [NE _].
+  destruct (no_task_about_new s (isR c) G (fun t H => isX_new c t (or_intror (or_introl H)))) as [NR _].
+  destruct (no_task_about_new s (isD c) G (fun t H => isX_new c t (or_intror (or_intror (or_introl H))))) as [ND _].
+  destruct (no_task_about_new s (isF c) G (fun t H => isX_new c t (or_intror (or_intror (or_intror (or_introl H)))))) as [NF _].
+  assert (Hframe : forall s2, (forall c1, c1 <> c -> getc s2 c1 = getc s1 c1 /\ same_for s1 s2 c1) ->
+            forall c1, c1 <> c -> getc s2 c1 = getc s c1 /\ same_for s s2 c1 \/ (getc s2 c1 = None /\ getc s c1 = None)).
+  { intros s2 H2 c1 Hn. destruct (H2 c1 Hn) as [A B]. destruct (Nat.lt_ge_cases c1 c) as [Hlt|Hge].
+    - left. split; [rewrite A; apply getc_add_old, Hlt|]. apply (same_for_trans s s1 s2 c1); [apply add_conn_frame; auto|exact B].
+    - right. assert (c < c1) by lia. split.
+      + rewrite A. unfold getc, s1, add_conn. cbn. apply nth_error_None. rewrite app_length. cbn. fold c. lia.
+      + unfold getc. apply nth_error_None. fold c. lia. }
+  assert (Hclose : forall s2, GInv s2 -> (forall c1, c1 <> c -> getc s2 c1 = getc s1 c1 /\ same_for s1 s2 c1) ->
+            (forall k2, getc s2 c = Some k2 -> CInv s2 c k2) -> Inv0 s2).
+  { intros s2 G2 H2 Hc2. split; [exact G2|]. intros c1 k1 Hg1. destruct (Nat.eq_dec c1 c) as [->|Hn]; [apply Hc2, Hg1|].
+    destruct (Hframe s2 H2 c1 Hn) as [[A B]|[A _]]; [|congruence]. rewrite A in Hg1.
+    apply (same_for_cinv s s2 c1 k1 B Hg1); [rewrite A; exact Hg1|apply HC, Hg1]. }
+  destruct (io =? 0) eqn:Eio.
+  - (* the acceptor loop is the io loop: connectEstablished runs inline *)
+    apply Nat.eqb_eq in Eio. unfold establish. unfold getc at 1. fold (getc s1 c). unfold s1, c. rewrite getc_add_new.
+    cbn [k0 fresh k_alive k_loop k_st negb cstate_eqb set_life k_wr]. rewrite Eio. cbn [Nat.eqb negb emit].
+    fold c. fold s1. apply finish_ok. rewrite <- Eio. fold k0.
+    set (k' := chan_update (s_readd s1) (set_life k0 Connected (S (k_ups k0)) (k_downs k0)) false true).
+    pose proof (chan_update_fields (s_readd s1) (set_life k0 Connected (S (k_ups k0)) (k_downs k0)) false true) as F. cbv zeta in F.
+    fold k' in F. cbn [set_life k0 fresh k_st k_rflag k_loop k_alive k_ccb k_mapped k_urefs k_delayed k_fin k_ups k_downs k_dtors k_closes] in F.
+    destruct F as (F1 & F2 & F3 & F4 & F5 & F6 & F7 & F8 & F9 & F10 & F11 & F12 & F13 & F14 & F15 & F16 & F17).
+    assert (Hgc : getc s1 c = Some k0) by apply getc_add_new.
+    apply (Hclose (put s1 c k')).
+    + apply (ginv_put_nc s1 c k0 k' G1 Hgc F6 F7); [intros _; congruence|].
+      intros Hc. cbn in Hc. destruct (gi_cli s G c Hc) as (_ & kx & Hkx & _). apply getc_lt in Hkx. unfold c in Hkx. lia.
+    + intros c1 Hn. split; [apply getc_put_neq; auto|apply same_for_put].
+    + intros k2 Hk2. rewrite getc_put_eq in Hk2 by (eapply getc_lt, Hgc). injection Hk2 as <-.
+      apply cinv_build; try congruence.
+      * rewrite F6. exact Hio.
+      * intros Hx. congruence.
+      * intros Hx. exfalso. apply Hx. left. exact F1.
+      * unfold counters_ok. rewrite F1, F13, F14. auto.
+      * apply chan_update_poller.
+      * unfold phase, owner_alive. rewrite F1, F5, F8, F9.
+        change (todoN (isE c) (put s1 c k')) with (todoN (isE c) s). change (todoN (isR c) (put s1 c k')) with (todoN (isR c) s).
+        change (todoN (isD c) (put s1 c k')) with (todoN (isD c) s). change (s_srv (put s1 c k')) with (s_srv s).
+        repeat split; auto.
+  - (* an io thread: connectEstablished is queued on its loop *)
+    apply Nat.eqb_neq in Eio. cbn [ret]. apply finish_ok.
+    destruct (getl_valid s io G Hio) as [v Hv]. assert (Hv1 : getl s1 io = Some v) by exact Hv.
+    set (t := TEstablish c). destruct (enq_fields s1 io t) as (N1 & N2 & N3 & N4 & N5 & N6).
+    apply (Hclose (enq s1 io t)).
+    + apply ginv_enq; [exact G1|]. split; [reflexivity|]. split; [intros c0 _; exact Eio|].
+      exists k0. split; [apply getc_add_new|]. split; [reflexivity|discriminate].
+    + intros c1 Hn. split; [apply getc_enq|]. apply same_for_enq. cbn. apply Nat.eqb_neq. auto.
+    + intros k2 Hk2. rewrite getc_enq in Hk2. unfold s1, c in Hk2. rewrite getc_add_new in Hk2. injection Hk2 as <-.
+      apply cinv_build; cbn [k0 fresh k_alive k_loop k_ccb k_wr k_rd k_dtors k_closes]; auto.
+      * rewrite N1. exact Hio.
+      * intros Hx. congruence.
+      * unfold counters_ok. cbn. auto.
+      * unfold poller_ok, k_none. cbn. split; [tauto|discriminate].
+      * unfold phase. cbn [k0 fresh k_st k_added k_ccb k_loop k_mapped].
+        rewrite (todoN_enq (isE c) s1 io t v Hv1), (todoN_enq (isR c) s1 io t v Hv1), (todoN_enq (isD c) s1 io t v Hv1),
+                (todoN_enq (isF c) s1 io t v Hv1), (loop_todo_enq_eq s1 io t v Hv1), N3.
+        unfold t. cbn [isE isR isD isF]. rewrite Nat.eqb_refl.
+        change (todoN (isE c) s1) with (todoN (isE c) s). change (todoN (isR c) s1) with (todoN (isR c) s).
+        change (todoN (isD c) s1) with (todoN (isD c) s). change (todoN (isF c) s1) with (todoN (isF c) s).
+        change (s_srv s1) with (s_srv s). change (loop_todo s1 io) with (loop_todo s io).
+        repeat split; try lia.
+        -- rewrite first_life_app_none.
+           ++ cbn. unfold life_of. cbn. rewrite Nat.eqb_refl. reflexivity.
+           ++ apply cnt_zero_first_life.
+              ** pose proof (sumq_ge (fun l => cnt (isE c) (q_todo l)) _ io v Hv). unfold loop_todo. rewrite Hv. unfold todoN in NE. cbn in *. lia.
+              ** pose proof (sumq_ge (fun l => cnt (isD c) (q_todo l)) _ io v Hv). unfold loop_todo. rewrite Hv. unfold todoN in ND. cbn in *. lia.
+              ** pose proof (sumq_ge (fun l => cnt (isF c) (q_todo l)) _ io v Hv). unfold loop_todo. rewrite Hv. unfold todoN in NF. cbn in *. lia.
+        -- left. repeat split; auto; lia.
 Qed.
